@@ -10,7 +10,9 @@ walk_folder_repeat makes member paths relative.  RawFileSystem is only checked t
 Fail-closed: any expression outside the small language below raises TranslateError.
     X.replace('\\\\', '/') -> OSlash      X.casefold() -> OFold      os.path.normpath(X) -> ONorm
     X.rstrip('/') -> ORStrip              `if X == '.': X = ''` -> ODotEmpty
-    X + '/' if X else '' -> OAddSlash     self._clean_path(X), module-level helper(X) -> their translated bodies
+    X + '/' if X else '' -> OAddSlash     self.<helper>(X), module-level helper(X) -> their translated bodies
+Round 3: everything is matched on a canonical form of the module (see `canonical_module`, `normalise`, `_paths`), so that
+behaviour-preserving spellings of the same code give the same generated file; what cannot be classified still fails closed.
 """
 from __future__ import annotations
 
@@ -38,6 +40,59 @@ def _dotted(n) -> str | None:
         b = _dotted(n.value)
         return None if b is None else f'{b}.{n.attr}'
     return None
+
+
+def _nonempty_test(t):
+    """(X, True) for `X`, `X != ''`, `len(X) > 0`, `len(X) != 0`, `len(X)`, `bool(X)`; (X, False) for `not X`, `X == ''`,
+    `len(X) == 0`; None otherwise.  (X a string: all of these say whether X is non-empty.)"""
+    pol = True
+    while isinstance(t, ast.UnaryOp) and isinstance(t.op, ast.Not):
+        t, pol = t.operand, not pol
+    if isinstance(t, ast.Call) and _name(t.func) in ('len', 'bool') and len(t.args) == 1 and not t.keywords:
+        return t.args[0], pol
+    if isinstance(t, ast.Compare) and len(t.ops) == 1:
+        l, o, r = t.left, t.ops[0], t.comparators[0]
+        if _is_const(r, '') and isinstance(o, (ast.NotEq, ast.Eq)):
+            return l, pol == isinstance(o, ast.NotEq)
+        if isinstance(l, ast.Call) and _name(l.func) == 'len' and len(l.args) == 1 and _is_const(r, 0):
+            if isinstance(o, (ast.Gt, ast.NotEq)):
+                return l.args[0], pol
+            if isinstance(o, ast.Eq):
+                return l.args[0], not pol
+        return None
+    if isinstance(t, (ast.Name, ast.Attribute)):
+        return t, pol
+    return None
+
+
+class _FStrConcat(ast.NodeTransformer):
+    """f'{A}text{B}' -> A + 'text' + B  (plain replacement fields only; used where A, B are strings being normalised)."""
+
+    def visit_JoinedStr(self, node):
+        cur = None
+        for part in node.values:
+            if isinstance(part, ast.FormattedValue) and part.conversion == -1 and part.format_spec is None:
+                piece = self.visit(part.value)
+            elif isinstance(part, ast.Constant) and isinstance(part.value, str):
+                piece = part
+            else:
+                return node
+            cur = piece if cur is None else ast.copy_location(ast.BinOp(left=cur, op=ast.Add(), right=piece), node)
+        return node if cur is None or isinstance(cur, ast.Constant) else cur
+
+
+def _tail_ifexp(stmts):
+    """`...; if c: return A` followed by (or with an else of) statements that end in `return B`  ->  `...; return A if c
+    else B`, from the end backwards (only where both sides are a bare return)."""
+    stmts = list(stmts)
+    for i, st in enumerate(stmts):
+        if isinstance(st, ast.If) and len(st.body) == 1 and isinstance(st.body[0], ast.Return) and st.body[0].value is not None:
+            tail = _tail_ifexp(list(st.orelse) + stmts[i + 1:])
+            if len(tail) == 1 and isinstance(tail[0], ast.Return) and tail[0].value is not None:
+                new = ast.Return(value=ast.IfExp(test=st.test, body=st.body[0].value, orelse=tail[0].value))
+                return stmts[:i] + [ast.fix_missing_locations(ast.copy_location(new, st))]
+            return stmts
+    return stmts
 
 
 class Tr:
@@ -68,7 +123,7 @@ class Tr:
             self.err(fn, f'helper {fn.name} must take one argument')
         p = params[0]
         env = {p: (p, [])}
-        for st in fn.body:
+        for st in _tail_ifexp(fn.body):
             if isinstance(st, ast.Expr) and isinstance(st.value, ast.Constant):
                 continue   # docstring
             if isinstance(st, ast.If) and self._is_file_unwrap(st, p):
@@ -132,12 +187,29 @@ class Tr:
             if d is None:
                 self.err(e, 'unrecognised attribute expression')
             return d, []
-        # X + '/' if X else ''
+        # f'{X}/' is X + '/' for a string X
+        if any(isinstance(n, ast.JoinedStr) for n in ast.walk(e)):
+            import copy
+            e = _FStrConcat().visit(copy.deepcopy(e))
+            if any(isinstance(n, ast.JoinedStr) for n in ast.walk(e)):
+                self.err(e, 'unrecognised f-string')
+        # '' if X == '.' else X
+        if isinstance(e, ast.IfExp) and isinstance(e.test, ast.Compare) and len(e.test.ops) == 1 \
+                and isinstance(e.test.ops[0], (ast.Eq, ast.NotEq)) and _is_const(e.test.comparators[0], '.'):
+            a, b = (e.body, e.orelse) if isinstance(e.test.ops[0], ast.Eq) else (e.orelse, e.body)
+            if _is_const(a, '') and ast.dump(b) == ast.dump(e.test.left):
+                base, ops = self.expr(b, env, depth)
+                return base, ops + ['ODotEmpty']
+            self.err(e, 'unrecognised conditional expression')
+        # X + '/' if X else ''   (the test in any spelling of "X is not empty", either polarity)
         if isinstance(e, ast.IfExp):
-            if isinstance(e.body, ast.BinOp) and isinstance(e.body.op, ast.Add) and _is_const(e.body.right, '/') \
-                    and _is_const(e.orelse, '') and ast.dump(e.test) == ast.dump(e.body.left):
-                base, ops = self.expr(e.test, env, depth)
-                return base, ops + ['OAddSlash']
+            t = _nonempty_test(e.test)
+            if t is not None:
+                subject, a, b = (t[0], e.body, e.orelse) if t[1] else (t[0], e.orelse, e.body)
+                if isinstance(a, ast.BinOp) and isinstance(a.op, ast.Add) and _is_const(a.right, '/') \
+                        and _is_const(b, '') and ast.dump(subject) == ast.dump(a.left):
+                    base, ops = self.expr(subject, env, depth)
+                    return base, ops + ['OAddSlash']
             self.err(e, 'unrecognised conditional expression')
         if isinstance(e, ast.Call):
             f = e.func
@@ -145,9 +217,12 @@ class Tr:
             if fd in ('os.path.normpath', 'posixpath.normpath') and len(e.args) == 1 and not e.keywords:
                 base, ops = self.expr(e.args[0], env, depth)
                 return base, ops + ['ONorm']
-            if fd in ('self._clean_path', 'cls._clean_path') and len(e.args) == 1 and not e.keywords:
+            if isinstance(f, ast.Attribute) and isinstance(f.value, ast.Name) and self.cls is not None \
+                    and f.value.id in ('self', 'cls', self.cls.name) and len(e.args) == 1 and not e.keywords \
+                    and any(isinstance(n, ast.FunctionDef) and n.name == f.attr for n in self.cls.body):
+                # a string helper of the same class (e.g. _clean_path): its translated body
                 base, ops = self.expr(e.args[0], env, depth)
-                return base, ops + self.helper_ops(self.method(self.cls, '_clean_path'), depth + 1)
+                return base, ops + self.helper_ops(self.method(self.cls, f.attr), depth + 1)
             if isinstance(f, ast.Name) and f.id in self.funcs and len(e.args) == 1 and not e.keywords:
                 base, ops = self.expr(e.args[0], env, depth)
                 return base, ops + self.helper_ops(self.funcs[f.id], depth + 1)
@@ -165,6 +240,631 @@ class Tr:
         self.err(e, f'unrecognised expression {ast.unparse(e)[:60]}')
 
 
+
+# ------------------------------------------------------------------------------------------------ normalisation
+# Before a method is matched it is rewritten into a canonical form, so that behaviour-preserving spellings are
+# recognised:  (1) calls of module-level helpers / methods of the same class whose body is a single `return E` are
+# replaced by E;  (2) locals that are assigned exactly once a pure string expression are replaced by that expression;
+# (3) variables bound by comprehensions are renamed _C0, _C1, ...   Everything else is left alone, and what cannot be
+# matched afterwards still fails closed.
+PURE_METHODS = {'replace', 'casefold', 'lower', 'upper', 'rstrip', 'lstrip', 'strip', 'split', 'rsplit', 'join',
+                'startswith', 'endswith', 'removeprefix', 'removesuffix', 'count'}
+PURE_FUNCS = {'os.path.join', 'os.path.normpath', 'posixpath.join', 'posixpath.normpath', 'len', 'str', 'tuple', 'list',
+              'sum', 'bool'}
+
+
+def _is_doc(st) -> bool:
+    return isinstance(st, ast.Expr) and isinstance(st.value, ast.Constant) and isinstance(st.value.value, str)
+
+
+def _body(fn) -> list:
+    return [st for st in fn.body if not _is_doc(st)]
+
+
+def _pure(e) -> bool:
+    """An expression without side effects whose value depends only on the variables it mentions."""
+    for n in ast.walk(e):
+        if isinstance(n, ast.Call):
+            f = n.func
+            if isinstance(f, ast.Attribute) and f.attr in PURE_METHODS:
+                continue
+            if _dotted(f) in PURE_FUNCS:
+                continue
+            return False
+        if isinstance(n, (ast.Await, ast.Yield, ast.YieldFrom, ast.NamedExpr, ast.Lambda, ast.Starred)):
+            return False
+    return True
+
+
+def _bound_in_comps(e) -> set:
+    return {n.id for c in ast.walk(e) if isinstance(c, ast.comprehension) for n in ast.walk(c.target) if isinstance(n, ast.Name)}
+
+
+class _Subst(ast.NodeTransformer):
+    def __init__(self, mp):
+        self.mp = mp
+
+    def visit_Name(self, node):
+        if isinstance(node.ctx, ast.Load) and node.id in self.mp:
+            import copy
+            return copy.deepcopy(self.mp[node.id])
+        return node
+
+
+def _helper_expr(fn: ast.FunctionDef):
+    """(parameter names, defaults, E) if the helper is `def f(p...): [doc]; return E`, else None."""
+    b = _body(fn)
+    if len(b) != 1 or not isinstance(b[0], ast.Return) or b[0].value is None:
+        return None
+    a = fn.args
+    if a.vararg or a.kwarg or a.posonlyargs:
+        return None
+    params = [x.arg for x in a.args]
+    deco = {_dotted(d) for d in fn.decorator_list}
+    if params and params[0] in ('self', 'cls') and 'staticmethod' not in deco:
+        params = params[1:]
+    defaults = dict(zip(params[len(params) - len(a.defaults):], a.defaults)) if a.defaults else {}
+    for k, d in zip(a.kwonlyargs, a.kw_defaults):
+        params.append(k.arg)
+        if d is not None:
+            defaults[k.arg] = d
+    return params, defaults, b[0].value
+
+
+class _Inline(ast.NodeTransformer):
+    """(1): replace calls of single-expression helpers by their bodies."""
+
+    def __init__(self, tr, cls, depth=0):
+        self.tr, self.cls, self.depth = tr, cls, depth
+
+    def _resolve(self, f):
+        if isinstance(f, ast.Name) and f.id in self.tr.funcs:
+            return self.tr.funcs[f.id]
+        if isinstance(f, ast.Attribute) and isinstance(f.value, ast.Name) and self.cls is not None \
+                and f.value.id in ('self', 'cls', self.cls.name):
+            for n in self.cls.body:
+                if isinstance(n, ast.FunctionDef) and n.name == f.attr:
+                    return n
+        return None
+
+    def visit_Call(self, node):
+        self.generic_visit(node)
+        fn = self._resolve(node.func)
+        if fn is None or self.depth > 3:
+            return node
+        h = _helper_expr(fn)
+        if h is None:
+            return node
+        params, defaults, e = h
+        if any(isinstance(a, ast.Starred) for a in node.args) or any(k.arg is None for k in node.keywords):
+            return node
+        if len(node.args) > len(params):
+            return node
+        mp = dict(zip(params, node.args))
+        for k in node.keywords:
+            if k.arg not in params or k.arg in mp:
+                return node
+            mp[k.arg] = k.value
+        for p_ in params:
+            if p_ not in mp:
+                if p_ not in defaults:
+                    return node
+                mp[p_] = defaults[p_]
+        # only pure arguments may be duplicated or dropped; no capture by the helper's comprehension variables
+        free = {n.id for a in mp.values() for n in ast.walk(a) if isinstance(n, ast.Name)}
+        if not all(_pure(a) for a in mp.values()) or (free & _bound_in_comps(e)):
+            return node
+        import copy
+        body = _Subst(mp).visit(copy.deepcopy(e))
+        return _Inline(self.tr, self.cls, self.depth + 1).visit(body)
+
+
+def _binding_counts(fn: ast.FunctionDef) -> dict:
+    cnt: dict[str, int] = {}
+    for a in fn.args.args + fn.args.kwonlyargs:
+        cnt[a.arg] = cnt.get(a.arg, 0) + 1
+    for n in ast.walk(fn):
+        if isinstance(n, ast.Name) and isinstance(n.ctx, (ast.Store, ast.Del)):
+            cnt[n.id] = cnt.get(n.id, 0) + 1
+        elif isinstance(n, ast.ExceptHandler) and n.name:
+            cnt[n.name] = cnt.get(n.name, 0) + 1
+    return cnt
+
+
+def _loads(node, name) -> int:
+    return sum(1 for n in ast.walk(node) if isinstance(n, ast.Name) and n.id == name and isinstance(n.ctx, ast.Load))
+
+
+def _inline_locals(fn: ast.FunctionDef) -> None:
+    """(2): `v = E` (v bound once, E pure over variables bound once, every use of v later in the same block) -> E."""
+    changed = True
+    while changed:
+        changed = False
+        cnt = _binding_counts(fn)
+        for holder in ast.walk(fn):
+            for fld in ('body', 'orelse', 'finalbody'):
+                blk = getattr(holder, fld, None)
+                if not isinstance(blk, list):
+                    continue
+                for i, st in enumerate(blk):
+                    tgt = val = None
+                    if isinstance(st, ast.Assign) and len(st.targets) == 1 and isinstance(st.targets[0], ast.Name):
+                        tgt, val = st.targets[0].id, st.value
+                    elif isinstance(st, ast.AnnAssign) and isinstance(st.target, ast.Name) and st.value is not None:
+                        tgt, val = st.target.id, st.value
+                    if tgt is None or cnt.get(tgt, 0) != 1 or not _pure(val):
+                        continue
+                    if isinstance(val, (ast.Dict, ast.List, ast.Set, ast.ListComp, ast.SetComp, ast.DictComp, ast.GeneratorExp)) \
+                            or (isinstance(val, ast.Call) and _dotted(val.func) in ('list', 'dict', 'set')):
+                        # a fresh mutable object: its identity matters, unless its only use is one evaluation by the
+                        # simple statement that follows (then there is nothing to alias it)
+                        nxt = blk[i + 1] if i + 1 < len(blk) else None
+                        once = (isinstance(nxt, (ast.Assign, ast.AnnAssign, ast.Return, ast.Expr)) and _loads(nxt, tgt) == 1
+                                and _loads(fn, tgt) == 1
+                                and not any(isinstance(c, (ast.ListComp, ast.SetComp, ast.DictComp, ast.GeneratorExp, ast.Lambda)) and _loads(c, tgt)
+                                            for c in ast.walk(nxt)))
+                        if not once:
+                            continue
+                    free = {n.id for n in ast.walk(val) if isinstance(n, ast.Name)} - _bound_in_comps(val)
+                    if any(cnt.get(v, 0) > 1 for v in free) or tgt in free:
+                        continue
+                    rest = blk[i + 1:]
+                    if sum(_loads(r, tgt) for r in rest) != _loads(fn, tgt) or not rest:
+                        continue
+                    if any(tgt in _bound_in_comps(r) or (free & _bound_in_comps(r)) for r in rest):
+                        continue
+                    sub = _Subst({tgt: val})
+                    blk[i + 1:] = [sub.visit(r) for r in rest]
+                    del blk[i]
+                    changed = True
+                    break
+                if changed:
+                    break
+            if changed:
+                break
+
+
+def _rename_comps(fn: ast.FunctionDef) -> None:
+    """(3): comprehension variables -> _C0, _C1, ... (per comprehension, in order of appearance)."""
+    k = 0
+    for n in ast.walk(fn):
+        if isinstance(n, (ast.ListComp, ast.SetComp, ast.GeneratorExp, ast.DictComp)):
+            names = []
+            for c in n.generators:
+                for t in ast.walk(c.target):
+                    if isinstance(t, ast.Name) and t.id not in names and not t.id.startswith('_C'):
+                        names.append(t.id)
+            mp = {}
+            for nm in names:
+                mp[nm] = f'_C{k}'
+                k += 1
+            for t in ast.walk(n):
+                if isinstance(t, ast.Name) and t.id in mp:
+                    t.id = mp[t.id]
+
+
+def normalise(tr, cls, fn: ast.FunctionDef) -> ast.FunctionDef:
+    import copy
+    out = copy.deepcopy(fn)
+    out.body = [_Inline(tr, cls).visit(st) for st in out.body]
+    _inline_locals(out)
+    _rename_comps(out)
+    ast.fix_missing_locations(out)
+    return out
+
+
+# ------------------------------------------------------------------------------------------------ canonical module
+# Behaviour-preserving rewrites applied once to the whole parsed module before anything is matched (every one is an
+# equivalence of Python programs, none depends on what the code is about):
+#   (4) module-level constants (a name bound once at module level to a literal, never declared global) are inlined;
+#   (5) in a loop body `if c: continue` followed by R  ->  `if not c: R`  (`not` pushed into comparisons);
+#   (6) `yield from (E for T in I if C)` / `yield from [E for ...]`  ->  `for T in I: if C: yield E`;
+#   (7) `for t in I: a, b = t; ...` (t not used otherwise)  ->  `for a, b in I: ...`;
+#   (8) `D = {}` followed by `for T in I: [if C:] D[K] = V`  ->  `D = {K: V for T in I [if C]}`;
+#   (9) `try: A except E: <continue/break/return/raise> else: B`  ->  the same try followed by B;
+#   (10) keyword arguments of calls to functions / classes defined in the module -> positional, by their own signature;
+#   (11) a local re-assigned by plain statements of one block (never read before the first, nor outside the block) gets
+#        one name per assignment (`v = A; v = f(v)` -> `v = A; v_1 = f(v)`), so that rule (2) can inline it;
+#   (12) `for k in self.<backend dict>: ... self.<backend dict>[k] ...`  ->  `for k, v in self.<backend dict>.items(): ... v ...`;
+#   (13) `for ...: body else: E` without a break in the body  ->  the loop followed by E;
+#   (14) `sum(1 for T in I if C)`  ->  `len([T for T in I if C])`;
+#   (15) `except E: pass` of a try that ends a loop body  ->  `except E: continue`.
+# Matching-time equivalences: `if not c: A else: B` = `if c: B else: A` and straight-line locals folded into the returned
+# expression (_paths), `if c: return A` + `return B` in a string helper = `return A if c else B` (_tail_ifexp), every spelling
+# of "X is not empty" (_nonempty_test), key uses / FileInfo sources inside helpers of the same class that are handed the name.
+_NEG = {ast.In: ast.NotIn, ast.NotIn: ast.In, ast.Eq: ast.NotEq, ast.NotEq: ast.Eq, ast.Is: ast.IsNot, ast.IsNot: ast.Is}
+
+
+def _negate(t):
+    if isinstance(t, ast.UnaryOp) and isinstance(t.op, ast.Not):
+        return t.operand
+    if isinstance(t, ast.Compare) and len(t.ops) == 1 and type(t.ops[0]) in _NEG:
+        return ast.copy_location(ast.Compare(left=t.left, ops=[_NEG[type(t.ops[0])]()], comparators=t.comparators), t)
+    return ast.copy_location(ast.UnaryOp(op=ast.Not(), operand=t), t)
+
+
+def _fn_bound(fn) -> set:
+    out = {a.arg for a in fn.args.args + fn.args.kwonlyargs + fn.args.posonlyargs}
+    for a in (fn.args.vararg, fn.args.kwarg):
+        if a is not None:
+            out.add(a.arg)
+    for n in ast.walk(fn):
+        if isinstance(n, ast.Name) and isinstance(n.ctx, (ast.Store, ast.Del)):
+            out.add(n.id)
+        elif isinstance(n, ast.ExceptHandler) and n.name:
+            out.add(n.name)
+        elif isinstance(n, (ast.Import, ast.ImportFrom)):
+            out.update((a.asname or a.name).split('.')[0] for a in n.names)
+        elif isinstance(n, (ast.FunctionDef, ast.ClassDef)) and n is not fn:
+            out.add(n.name)
+    return out
+
+
+def _module_consts(tree: ast.Module) -> dict:
+    cnt: dict[str, int] = {}
+    val: dict[str, ast.AST] = {}
+
+    def scan(stmts):
+        for st in stmts:
+            if isinstance(st, (ast.FunctionDef, ast.AsyncFunctionDef, ast.ClassDef)):
+                cnt[st.name] = cnt.get(st.name, 0) + 2
+                continue
+            for n in ast.walk(st):
+                if isinstance(n, ast.Name) and isinstance(n.ctx, (ast.Store, ast.Del)):
+                    cnt[n.id] = cnt.get(n.id, 0) + 1
+                elif isinstance(n, (ast.Import, ast.ImportFrom)):
+                    for a in n.names:
+                        k = (a.asname or a.name).split('.')[0]
+                        cnt[k] = cnt.get(k, 0) + 2
+            tgt = v = None
+            if isinstance(st, ast.Assign) and len(st.targets) == 1 and isinstance(st.targets[0], ast.Name):
+                tgt, v = st.targets[0].id, st.value
+            elif isinstance(st, ast.AnnAssign) and isinstance(st.target, ast.Name) and st.value is not None:
+                tgt, v = st.target.id, st.value
+            if tgt is not None and isinstance(v, ast.Constant) and isinstance(v.value, (str, bytes, int, bool, type(None))):
+                val[tgt] = v
+    scan(tree.body)      # only top-level statements: a conditional definition is not a constant
+    for n in ast.walk(tree):
+        if isinstance(n, (ast.Global, ast.Nonlocal)):
+            for k in n.names:
+                cnt[k] = cnt.get(k, 0) + 2
+    return {k: v for k, v in val.items() if cnt.get(k, 0) == 1}
+
+
+def _loads_outside(fn, name: str, inside) -> int:
+    ins = {id(n) for n in ast.walk(inside)}
+    return sum(1 for n in ast.walk(fn) if isinstance(n, ast.Name) and n.id == name and id(n) not in ins)
+
+
+def _mentions(e, dumped: str) -> bool:
+    return any(ast.dump(n) == dumped for n in ast.walk(e))
+
+
+def _has_break(stmts) -> bool:
+    for st in stmts:
+        if isinstance(st, ast.Break):
+            return True
+        if isinstance(st, (ast.For, ast.While, ast.FunctionDef, ast.ClassDef)):
+            if _has_break(getattr(st, 'orelse', [])):
+                return True
+            continue            # a break inside a nested loop belongs to that loop
+        for fld in ('body', 'orelse', 'finalbody'):
+            if _has_break(getattr(st, fld, []) or []):
+                return True
+        if isinstance(st, ast.Try) and any(_has_break(h.body) for h in st.handlers):
+            return True
+    return False
+
+
+class _CountToLen(ast.NodeTransformer):
+    """(14) sum(1 for T in I if C)  ->  len([T for T in I if C])   (counting the elements that pass a filter)."""
+
+    def visit_Call(self, node):
+        self.generic_visit(node)
+        if _name(node.func) == 'sum' and len(node.args) == 1 and not node.keywords and isinstance(node.args[0], (ast.GeneratorExp, ast.ListComp)) \
+                and _is_const(node.args[0].elt, 1) and len(node.args[0].generators) == 1 and isinstance(node.args[0].generators[0].target, ast.Name):
+            g = node.args[0].generators[0]
+            lc = ast.ListComp(elt=ast.Name(id=g.target.id, ctx=ast.Load()), generators=node.args[0].generators)
+            return ast.copy_location(ast.Call(func=ast.Name(id='len', ctx=ast.Load()), args=[lc], keywords=[]), node)
+        return node
+
+
+def _canon_block(fn, blk: list, in_loop: bool) -> list:
+    """One block of statements, rewritten (recursively)."""
+    import copy
+    out: list = []
+    i = 0
+    blk = list(blk)
+    while i < len(blk):
+        st = blk[i]
+        # (6) yield from <comprehension>
+        if isinstance(st, ast.Expr) and isinstance(st.value, ast.YieldFrom) and isinstance(st.value.value, (ast.GeneratorExp, ast.ListComp)):
+            comp = st.value.value
+            names = {n.id for g in comp.generators for n in ast.walk(g.target) if isinstance(n, ast.Name)}
+            if not any(g.is_async for g in comp.generators) and all(_loads_outside(fn, nm, comp) == 0 for nm in names):
+                inner: ast.stmt = ast.Expr(value=ast.Yield(value=comp.elt))
+                for g in reversed(comp.generators):
+                    for c in reversed(g.ifs):
+                        inner = ast.If(test=c, body=[inner], orelse=[])
+                    inner = ast.For(target=copy.deepcopy(g.target), iter=g.iter, body=[inner], orelse=[])
+                    for n in ast.walk(inner.target):
+                        if isinstance(n, ast.Name):
+                            n.ctx = ast.Store()
+                blk[i] = st = ast.copy_location(inner, st)
+        # (8) D = {} ; for T in I: [if C:] D[K] = V
+        if isinstance(st, (ast.Assign, ast.AnnAssign)) and i + 1 < len(blk) and isinstance(blk[i + 1], ast.For):
+            tgt = st.targets[0] if isinstance(st, ast.Assign) and len(st.targets) == 1 else getattr(st, 'target', None)
+            lp = blk[i + 1]
+            v = st.value
+            empty = v is not None and ((isinstance(v, ast.Dict) and not v.keys) or (isinstance(v, ast.Call) and _name(v.func) == 'dict' and not v.args and not v.keywords))
+            if tgt is not None and _dotted(tgt) is not None and empty and not lp.orelse and len(lp.body) == 1:
+                b0 = lp.body[0]
+                cond = None
+                if isinstance(b0, ast.If) and not b0.orelse and len(b0.body) == 1:
+                    cond, b0 = b0.test, b0.body[0]
+                td = ast.dump(ast.parse(_dotted(tgt), mode='eval').body)
+                lnames = {n.id for n in ast.walk(lp.target) if isinstance(n, ast.Name)}
+                if (isinstance(b0, ast.Assign) and len(b0.targets) == 1 and isinstance(b0.targets[0], ast.Subscript)
+                        and _dotted(b0.targets[0].value) == _dotted(tgt)
+                        and not any(_mentions(x, td) for x in (b0.targets[0].slice, b0.value, lp.iter) + ((cond,) if cond is not None else ()))
+                        and all(_loads_outside(fn, nm, lp) == 0 for nm in lnames)):
+                    tcopy = copy.deepcopy(lp.target)
+                    comp = ast.DictComp(key=b0.targets[0].slice, value=b0.value,
+                                        generators=[ast.comprehension(target=tcopy, iter=lp.iter, ifs=[cond] if cond is not None else [], is_async=0)])
+                    new = copy.copy(st)
+                    new.value = ast.copy_location(comp, lp)
+                    out.append(new)
+                    i += 2
+                    continue
+        # (7) for t in I: a, b = t
+        if isinstance(st, ast.For) and isinstance(st.target, ast.Name) and st.body:
+            b0 = st.body[0]
+            t = st.target.id
+            if (isinstance(b0, ast.Assign) and len(b0.targets) == 1 and isinstance(b0.targets[0], ast.Tuple)
+                    and all(isinstance(x, ast.Name) for x in b0.targets[0].elts) and _name(b0.value) == t
+                    and _loads(fn, t) == 1 and len(st.body) > 1):
+                st = ast.copy_location(ast.For(target=b0.targets[0], iter=st.iter, body=st.body[1:], orelse=st.orelse), st)
+                blk[i] = st
+        # (5) if c: continue ; R   (only directly in a loop body)
+        if in_loop and isinstance(st, ast.If) and not st.orelse and len(st.body) == 1 and isinstance(st.body[0], ast.Continue) and blk[i + 1:]:
+            rest = _canon_block(fn, blk[i + 1:], True)
+            out.append(ast.copy_location(ast.If(test=_negate(st.test), body=rest, orelse=[]), st))
+            return out
+        # (15) `except E: pass` of a try that is the last statement of a loop body  ->  `except E: continue`
+        if in_loop and isinstance(st, ast.Try) and i == len(blk) - 1 and not st.finalbody:
+            for h in st.handlers:
+                if len(h.body) == 1 and isinstance(h.body[0], ast.Pass):
+                    h.body = [ast.copy_location(ast.Continue(), h.body[0])]
+        # (13) for ...: body else: E   (no break in the body: the else always runs)   ->   for ...: body; E
+        if isinstance(st, (ast.For, ast.While)) and st.orelse and not _has_break(st.body):
+            moved = list(st.orelse)
+            st.orelse = []
+            blk[i + 1:i + 1] = moved
+        # (9) try: A except E: <leaves> else: B   ->   try: A except E: <leaves>; B
+        if isinstance(st, ast.Try) and st.orelse and not st.finalbody and st.handlers \
+                and all(h.body and isinstance(h.body[-1], (ast.Continue, ast.Break, ast.Return, ast.Raise)) for h in st.handlers):
+            moved = list(st.orelse)
+            st.orelse = []
+            blk[i + 1:i + 1] = moved
+        # (12) for k in self.<dict>: ... self.<dict>[k] ...   ->   for k, v in self.<dict>.items(): ... v ...
+        if isinstance(st, ast.For) and isinstance(st.target, ast.Name):
+            it = st.iter
+            if isinstance(it, ast.Call) and isinstance(it.func, ast.Attribute) and it.func.attr == 'keys' and not it.args and not it.keywords:
+                it = it.func.value
+            d = _dotted(it)
+            if d is not None and d.startswith('self.') and d[5:] in DICTS.values():
+                k = st.target.id
+                is_sub = lambda n: isinstance(n, ast.Subscript) and _dotted(n.value) == d and _name(n.slice) == k and isinstance(n.ctx, ast.Load)
+                stores = any((isinstance(n, ast.Subscript) and _dotted(n.value) == d and not isinstance(n.ctx, ast.Load))
+                             or (isinstance(n, ast.Name) and n.id == k and isinstance(n.ctx, ast.Store)) for b in st.body for n in ast.walk(b))
+                if not stores and any(is_sub(n) for b in st.body for n in ast.walk(b)):
+                    vname = f'_V{st.lineno}'
+
+                    class _S(ast.NodeTransformer):
+                        def visit_Subscript(self, node):
+                            if is_sub(node):
+                                return ast.copy_location(ast.Name(id=vname, ctx=ast.Load()), node)
+                            return self.generic_visit(node)
+                    body = [_S().visit(b) for b in st.body]
+                    tgt2: ast.expr = ast.Name(id=vname, ctx=ast.Store())
+                    # `a, b = v` / `x = v` as the first use: bind it in the loop target
+                    holder = body
+                    while len(holder) == 1 and isinstance(holder[0], ast.If) and not holder[0].orelse and not _loads(holder[0].test, vname):
+                        holder = holder[0].body
+                    if holder and isinstance(holder[0], ast.Assign) and len(holder[0].targets) == 1 and _name(holder[0].value) == vname \
+                            and sum(_loads(b, vname) for b in body) == 1 \
+                            and all(isinstance(n, (ast.Name, ast.Tuple, ast.Store)) for n in ast.walk(holder[0].targets[0])) \
+                            and all(_loads_outside(fn, n.id, st) == 0 and sum(1 for m in ast.walk(fn) if isinstance(m, ast.Name) and m.id == n.id and isinstance(m.ctx, ast.Store)) == 1
+                                    for n in ast.walk(holder[0].targets[0]) if isinstance(n, ast.Name)) and len(holder) > 1:
+                        tgt2 = holder[0].targets[0]
+                        del holder[0]
+                    new_it = ast.Call(func=ast.Attribute(value=it, attr='items', ctx=ast.Load()), args=[], keywords=[])
+                    st = ast.copy_location(ast.For(target=ast.Tuple(elts=[ast.Name(id=k, ctx=ast.Store()), tgt2], ctx=ast.Store()),
+                                                   iter=new_it, body=body, orelse=st.orelse), st)
+                    blk[i] = st
+        # recurse
+        if not isinstance(st, (ast.FunctionDef, ast.AsyncFunctionDef, ast.ClassDef)):
+            loop = isinstance(st, (ast.For, ast.While))
+            for fld in ('body', 'orelse', 'finalbody'):
+                sub = getattr(st, fld, None)
+                if isinstance(sub, list) and sub and isinstance(sub[0], ast.stmt):
+                    setattr(st, fld, _canon_block(fn, sub, loop and fld == 'body'))
+            if isinstance(st, ast.Try):
+                for h in st.handlers:
+                    h.body = _canon_block(fn, h.body, False)
+        out.append(st)
+        i += 1
+    return out
+
+
+def _ssa(fn) -> None:
+    """(11) A local that is only ever assigned by plain statements of one block, never read before the first of them in
+    that block nor outside the block, gets a fresh name per assignment (`v = A; v = f(v)` -> `v = A; v_1 = f(v)`)."""
+    params = {a.arg for a in fn.args.args + fn.args.kwonlyargs + fn.args.posonlyargs} | {a.arg for a in (fn.args.vararg, fn.args.kwarg) if a}
+    stores: dict[str, int] = {}
+    for n in ast.walk(fn):
+        if isinstance(n, ast.Name) and isinstance(n.ctx, (ast.Store, ast.Del)):
+            stores[n.id] = stores.get(n.id, 0) + 1
+    for holder in ast.walk(fn):
+        for fld in ('body', 'orelse', 'finalbody'):
+            blk = getattr(holder, fld, None)
+            if not isinstance(blk, list) or not blk or not isinstance(blk[0], ast.stmt):
+                continue
+            tops: dict[str, list[int]] = {}
+            for i, st in enumerate(blk):
+                if isinstance(st, ast.Assign) and len(st.targets) == 1 and isinstance(st.targets[0], ast.Name):
+                    tops.setdefault(st.targets[0].id, []).append(i)
+            for v, idxs in tops.items():
+                if len(idxs) < 2 or stores.get(v, 0) != len(idxs) or v in params:
+                    continue
+                inside = sum(_loads(st, v) for st in blk)
+                if inside != _loads(fn, v) or any(_loads(st, v) for st in blk[:idxs[0]]) or _loads(blk[idxs[0]].value, v):
+                    continue
+                if any(v in _bound_in_comps(st) for st in blk):
+                    continue
+                ver = 0
+                for i, st in enumerate(blk):
+                    cur = v if ver == 0 else f'{v}_{ver}'
+                    if i in idxs:
+                        for n in ast.walk(st.value):
+                            if isinstance(n, ast.Name) and n.id == v:
+                                n.id = cur
+                        if i != idxs[0]:
+                            ver += 1
+                        st.targets[0].id = v if ver == 0 else f'{v}_{ver}'
+                    else:
+                        for n in ast.walk(st):
+                            if isinstance(n, ast.Name) and n.id == v:
+                                n.id = cur
+                stores[v] = 1
+
+
+class _KwToPos(ast.NodeTransformer):
+    """(10) f(a, q=b) -> f(a, b) for functions / classes defined in this module (by their own signature)."""
+
+    def __init__(self, tree):
+        self.sig = {}
+        for n in tree.body:
+            fn = None
+            if isinstance(n, ast.FunctionDef):
+                fn, skip = n, 0
+            elif isinstance(n, ast.ClassDef):
+                fn = next((m for m in n.body if isinstance(m, ast.FunctionDef) and m.name == '__init__'), None)
+                skip = 1
+            if fn is not None and not fn.args.vararg and not fn.args.posonlyargs and not fn.decorator_list:
+                self.sig[n.name] = [a.arg for a in fn.args.args][skip:]
+
+    def visit_Call(self, node):
+        self.generic_visit(node)
+        ps = self.sig.get(_name(node.func) or '')
+        if ps and node.keywords and all(k.arg is not None for k in node.keywords) and not any(isinstance(a, ast.Starred) for a in node.args):
+            args = list(node.args)
+            kws = {k.arg: k.value for k in node.keywords}
+            while len(args) < len(ps) and ps[len(args)] in kws:
+                args.append(kws.pop(ps[len(args)]))
+            if not kws:      # keyword arguments are evaluated in the order written: only reorder pure ones
+                if all(_pure(k.value) for k in node.keywords):
+                    node.args, node.keywords = args, []
+        return node
+
+
+def canonical_module(tree: ast.Module) -> ast.Module:
+    tree = _CountToLen().visit(_KwToPos(tree).visit(tree))
+    for fn in [n for n in ast.walk(tree) if isinstance(n, ast.FunctionDef)]:
+        _ssa(fn)
+    consts = _module_consts(tree)
+    for fn in [n for n in ast.walk(tree) if isinstance(n, ast.FunctionDef)]:
+        if consts:
+            bound = _fn_bound(fn)
+            mp = {k: v for k, v in consts.items() if k not in bound}
+            if mp:
+                sub = _Subst(mp)
+                fn.body = [sub.visit(st) for st in fn.body]
+                fn.args.defaults = [sub.visit(d) for d in fn.args.defaults]
+        fn.body = _canon_block(fn, fn.body, False)
+    ast.fix_missing_locations(tree)
+    return tree
+
+
+def _params(fn: ast.FunctionDef) -> list:
+    return [a.arg for a in fn.args.args if a.arg not in ('self', 'cls')]
+
+
+def _paths(stmts, conds=(), env=None, raw=None):
+    """Symbolic paths of a straight-line / if / try body: [(conditions, returned expression)], where locals assigned on
+    the way are substituted into the returned expression.  `if c: return A` + fall-through is an if/else; a `try` whose
+    handlers only re-raise is its body; a path that ends in `raise` is dropped.  None for any other statement."""
+    import copy
+    env = dict(env or {})
+    raw = dict(raw or {})
+    out = []
+    stmts = list(stmts)
+    for i, st in enumerate(stmts):
+        if _is_doc(st) or isinstance(st, ast.Pass):
+            continue
+        if isinstance(st, ast.Return):
+            v = None if st.value is None else _Subst(env).visit(copy.deepcopy(st.value))
+            # a call whose result is thrown away is not part of any recognised shape
+            used = set() if st.value is None else {n.id for n in ast.walk(st.value) if isinstance(n, ast.Name)}
+            for c, _ in conds:
+                used |= {n.id for n in ast.walk(c) if isinstance(n, ast.Name)}
+            if any(impure and k not in used for k, impure in raw.items()):
+                return None
+            out.append((conds, v))
+            return out
+        if isinstance(st, ast.Raise):
+            return out
+        if isinstance(st, (ast.Assign, ast.AnnAssign)):
+            tgt = st.targets[0] if isinstance(st, ast.Assign) and len(st.targets) == 1 else getattr(st, 'target', None)
+            if isinstance(tgt, ast.Name) and st.value is not None:
+                # `raw`: per local, does its value involve a call that is not known to be pure?  A local consumed by
+                # another local hands that on to the consumer.
+                impure = not _pure(st.value)
+                for n in ast.walk(st.value):
+                    if isinstance(n, ast.Name) and n.id in raw:
+                        impure = impure or raw[n.id]
+                        if n.id != tgt.id:
+                            raw[n.id] = False
+                if raw.get(tgt.id):
+                    return None                  # an unused impure value is overwritten
+                env[tgt.id] = _Subst(env).visit(copy.deepcopy(st.value))
+                raw[tgt.id] = impure
+                continue
+            return None
+        if isinstance(st, ast.If):
+            test = _Subst(env).visit(copy.deepcopy(st.test))
+            rest = stmts[i + 1:]
+            yes, no = True, False
+            while isinstance(test, ast.UnaryOp) and isinstance(test.op, ast.Not):     # `if not c: A else: B` = `if c: B else: A`
+                test, yes, no = test.operand, no, yes
+            a = _paths(list(st.body) + rest, conds + ((test, yes),), env, raw)
+            b = _paths(list(st.orelse) + rest, conds + ((test, no),), env, raw)
+            if a is None or b is None:
+                return None
+            return out + a + b
+        if isinstance(st, ast.Try):
+            if st.finalbody or not all(h.body and isinstance(h.body[-1], ast.Raise) for h in st.handlers):
+                return None
+            r = _paths(list(st.body) + list(st.orelse) + stmts[i + 1:], conds, env, raw)
+            return None if r is None else out + r
+        return None
+    out.append((conds, None))
+    return out
+
+
+def _else_after_return(stmts):
+    """`if c: A; return` followed by B  ->  `if c: A else: B` (for bodies made of plain statements, e.g. add_sys)."""
+    stmts = [st for st in stmts if not _is_doc(st)]
+    for i, st in enumerate(stmts):
+        if isinstance(st, ast.If) and not st.orelse and st.body and isinstance(st.body[-1], ast.Return) and st.body[-1].value is None \
+                and stmts[i + 1:]:
+            new = ast.If(test=st.test, body=st.body[:-1], orelse=_else_after_return(stmts[i + 1:]))
+            return stmts[:i] + [ast.copy_location(new, st)]
+    while stmts and isinstance(stmts[-1], ast.Return) and stmts[-1].value is None:
+        stmts = stmts[:-1]
+    return stmts
+
+
 def _flat(stmts):
     """All statements in order, descending into if/try/with/for bodies (both branches)."""
     for st in stmts:
@@ -179,28 +879,10 @@ def _flat(stmts):
 
 
 def _key_uses(tr: Tr, fn: ast.FunctionDef, dict_attr: str, param: str):
-    """Ops applied to `param` wherever it is used as a key of self.<dict_attr> in fn (subscript or `in`)."""
-    env = {param: (param, [])}
+    """Ops applied to `param` wherever it is used as a key of self.<dict_attr> in fn (subscript or `in`), also inside
+    methods of the same class / module-level functions that fn hands the (possibly normalised) name to."""
     found = []
-    for st in _flat(fn.body):
-        if isinstance(st, ast.If) and isinstance(st.test, ast.Compare):
-            pass
-        consumed = False
-        if isinstance(st, (ast.Assign, ast.AnnAssign)):
-            # look for key uses inside the value first (with the environment before the assignment)
-            for node in ast.walk(st.value) if st.value is not None else ():
-                _collect(tr, node, dict_attr, env, found)
-            consumed = tr._stmt(st, env)
-        if not consumed:
-            # only the statement's own expressions, bodies are visited by _flat
-            for fld, val in ast.iter_fields(st):
-                if fld in ('body', 'orelse', 'finalbody', 'handlers'):
-                    continue
-                vals = val if isinstance(val, list) else [val]
-                for v in vals:
-                    if isinstance(v, ast.AST):
-                        for node in ast.walk(v):
-                            _collect(tr, node, dict_attr, env, found)
+    _key_uses_into(tr, fn, dict_attr, {param: (param, [])}, found, 0)
     if not found:
         tr.err(fn, f'{fn.name}: no use of self.{dict_attr} as a lookup')
     for base, ops in found:
@@ -213,12 +895,60 @@ def _key_uses(tr: Tr, fn: ast.FunctionDef, dict_attr: str, param: str):
     return first
 
 
-def _collect(tr, node, dict_attr, env, found):
+def _key_uses_into(tr: Tr, fn: ast.FunctionDef, dict_attr: str, env: dict, found: list, depth: int) -> None:
+    for st in _flat(fn.body):
+        consumed = False
+        if isinstance(st, (ast.Assign, ast.AnnAssign)):
+            # look for key uses inside the value first (with the environment before the assignment)
+            for node in ast.walk(st.value) if st.value is not None else ():
+                _collect(tr, node, dict_attr, env, found, depth, fn)
+            consumed = tr._stmt(st, env)
+        if not consumed:
+            # only the statement's own expressions, bodies are visited by _flat
+            for fld, val in ast.iter_fields(st):
+                if fld in ('body', 'orelse', 'finalbody', 'handlers'):
+                    continue
+                vals = val if isinstance(val, list) else [val]
+                for v in vals:
+                    if isinstance(v, ast.AST):
+                        for node in ast.walk(v):
+                            _collect(tr, node, dict_attr, env, found, depth, fn)
+
+
+def _collect(tr, node, dict_attr, env, found, depth=0, owner=None):
     if isinstance(node, ast.Subscript) and _dotted(node.value) == f'self.{dict_attr}':
         found.append(tr.expr(node.slice, env))
     if isinstance(node, ast.Compare) and len(node.ops) == 1 and isinstance(node.ops[0], (ast.In, ast.NotIn)) \
             and _dotted(node.comparators[0]) == f'self.{dict_attr}':
         found.append(tr.expr(node.left, env))
+    if isinstance(node, ast.Call) and isinstance(node.func, ast.Attribute) and node.func.attr in ('get', '__getitem__', '__contains__') \
+            and _dotted(node.func.value) == f'self.{dict_attr}' and node.args and not node.keywords:
+        found.append(tr.expr(node.args[0], env))         # self.<dict>.get(key[, default])
+    # a helper that is handed a value derived from the name: its own key uses count, with its parameter bound to that value
+    if isinstance(node, ast.Call) and depth < 3 and not any(isinstance(a, ast.Starred) for a in node.args) \
+            and all(k.arg is not None for k in node.keywords):
+        helper = _Inline(tr, tr.cls)._resolve(node.func)
+        if helper is not None and helper is not owner and helper.name not in LOOKUP_METHODS:
+            ps = [a.arg for a in helper.args.args]
+            deco = {_dotted(d) for d in helper.decorator_list}
+            if ps and ps[0] in ('self', 'cls') and 'staticmethod' not in deco:
+                ps = ps[1:]
+            bind = dict(zip(ps, node.args))
+            bind.update({k.arg: k.value for k in node.keywords if k.arg in ps})
+            env2 = {}
+            derived = False
+            for k, a in bind.items():
+                try:
+                    v = tr.expr(a, env)
+                except TranslateError:
+                    v = None
+                if v is not None and any(e is not None and e[0] == v[0] for e in env.values()):
+                    env2[k] = v          # derived from the name the caller was given
+                    derived = True
+                else:
+                    env2[k] = None
+            if derived:
+                _key_uses_into(tr, helper, dict_attr, env2, found, depth + 1)
 
 
 def _store_ops(tr: Tr, cls: ast.ClassDef, dict_attr: str):
@@ -232,6 +962,17 @@ def _store_ops(tr: Tr, cls: ast.ClassDef, dict_attr: str):
         if tgt is not None and _dotted(tgt) == f'self.{dict_attr}':
             if not isinstance(val, ast.DictComp) or len(val.generators) != 1:
                 tr.err(st, f'self.{dict_attr} is not built by one dict comprehension')
+            g = val.generators[0]
+            # every stored file takes part: the source is enumerated as it is, the only filter drops directory entries
+            for n in ast.walk(g.iter):
+                if isinstance(n, (ast.Subscript, ast.BinOp, ast.Compare, ast.Lambda, ast.IfExp, ast.BoolOp, ast.comprehension)) \
+                        or (isinstance(n, ast.Call) and (n.keywords or (n.args and _dotted(n.func) not in ('dict', 'list', 'tuple', 'iter')))):
+                    tr.err(st, f'self.{dict_attr}: the files are not enumerated as they are stored ({ast.unparse(g.iter)[:60]})')
+            for c in g.ifs:
+                t = c.operand if isinstance(c, ast.UnaryOp) and isinstance(c.op, ast.Not) else None
+                if not (isinstance(t, ast.Call) and isinstance(t.func, ast.Attribute) and t.func.attr == 'endswith' and len(t.args) == 1
+                        and _is_const(t.args[0], '/') and (_dotted(t.func.value) or '').split('.')[-1] == 'filename'):
+                    tr.err(st, f'self.{dict_attr}: unrecognised filter {ast.unparse(c)[:60]} on the stored files')
             base, ops = tr.expr(val.key, {})
             # the stored name: Virtual `filename`, Zip `info.filename`, VPK `file.filename`
             if base.split('.')[-1] != 'filename':
@@ -362,26 +1103,286 @@ def _coq_ops(ops) -> str:
     return '[' + '; '.join(ops) + ']'
 
 
+LOOKUP_METHODS = ('__getitem__', '__contains__', '__iter__', '_get_file', '_file_exists', 'open_bin', 'open_str',
+                  'walk_folder', 'walk_folder_repeat')
+
+
+def _methods(cls: ast.ClassDef) -> dict:
+    return {n.name: n for n in cls.body if isinstance(n, ast.FunctionDef)}
+
+
+def _join_of(tr: Tr, e, pfx: str):
+    """os.path.join(<pfx>, <Name X>) followed by .replace('\\', '/') / .casefold() -> (X, ops); None if e is not that."""
+    ops: list[str] = []
+    cur = e
+    chain = []
+    while isinstance(cur, ast.Call) and isinstance(cur.func, ast.Attribute) and _dotted(cur.func) not in ('os.path.join', 'posixpath.join'):
+        chain.append(cur)
+        cur = cur.func.value
+    if not (isinstance(cur, ast.Call) and _dotted(cur.func) in ('os.path.join', 'posixpath.join') and len(cur.args) == 2
+            and not cur.keywords and _name(cur.args[0]) == pfx and isinstance(cur.args[1], ast.Name)):
+        return None
+    for c in reversed(chain):
+        f = c.func
+        if f.attr == 'replace' and len(c.args) == 2 and not c.keywords and _is_const(c.args[0], '\\') and _is_const(c.args[1], '/'):
+            ops.append('OSlash')
+        elif f.attr == 'casefold' and not c.args and not c.keywords:
+            ops.append('OFold')
+        else:
+            tr.err(c, 'unrecognised operation after os.path.join')
+    return cur.args[1].id, ops
+
+
+def _systems_loop(tr: Tr, fn, stmts):
+    """The single `for S, P in self.systems` of a method -> (loop, S, P, forward)."""
+    loops = [s for s in stmts if isinstance(s, ast.For)]
+    if len(loops) != 1:
+        tr.err(fn, f'{fn.name}: expected one loop over self.systems')
+    lp = loops[0]
+    t = lp.target
+    if not (isinstance(t, ast.Tuple) and len(t.elts) == 2 and all(isinstance(x, ast.Name) for x in t.elts)) or lp.orelse:
+        tr.err(lp, f'{fn.name}: loop target is not a (system, prefix) pair')
+    if _dotted(lp.iter) == 'self.systems':
+        fwd = True
+    elif isinstance(lp.iter, ast.Call) and _name(lp.iter.func) == 'reversed' and len(lp.iter.args) == 1 \
+            and _dotted(lp.iter.args[0]) == 'self.systems':
+        fwd = False
+    else:
+        tr.err(lp, f'{fn.name}: does not iterate self.systems')
+    return lp, t.elts[0].id, t.elts[1].id, fwd
+
+
+def _is_fnf(h: ast.ExceptHandler) -> bool:
+    return _name(h.type) == 'FileNotFoundError'
+
+
+def _base_and_dunders(tr: Tr, side: dict) -> None:
+    """FileSystem.__getitem__/__contains__/__iter__/_file_exists and File.open_bin/open_str must be the plain delegations
+    the model assumes; no filesystem class may override the three dunder methods with anything else."""
+    base = tr.classes.get('FileSystem')
+    if base is None:
+        tr.err(tr.tree, 'FileSystem not found')
+
+    def delegation(cls, mname, target, args_ok):
+        fn = normalise(tr, cls, tr.method(cls, mname))
+        b = _body(fn)
+        ps = _params(fn)
+        ok = False
+        pth = _paths(b)
+        if pth is not None and len(pth) == 1 and not pth[0][0] and pth[0][1] is not None:
+            b = [ast.Return(value=pth[0][1])]       # straight-line locals folded into the returned expression
+        if len(b) == 1 and isinstance(b[0], (ast.Return, ast.Expr)):
+            v = b[0].value
+            if isinstance(v, ast.YieldFrom):
+                v = v.value
+            if isinstance(v, ast.Call) and _name(v.func) == 'iter' and len(v.args) == 1:
+                v = v.args[0]
+            if isinstance(v, ast.Call) and _dotted(v.func) == target and not v.keywords and args_ok(v.args, ps):
+                ok = True
+        if not ok:
+            tr.err(fn, f'{cls.name}.{mname} is not a plain delegation to {target}')
+
+    one = lambda a, ps: len(a) == 1 and len(ps) == 1 and _name(a[0]) == ps[0]
+    for cls in [base] + [tr.classes[c] for c in list(DICTS) + ['RawFileSystem', 'FileSystemChain'] if c in tr.classes]:
+        ms = _methods(cls)
+        if '__getitem__' in ms:
+            delegation(cls, '__getitem__', 'self._get_file', one)
+        if '__contains__' in ms:
+            delegation(cls, '__contains__', 'self._file_exists', one)
+        if '__iter__' in ms:
+            delegation(cls, '__iter__', 'self.walk_folder', lambda a, ps: len(a) == 1 and _is_const(a[0], '') and not ps)
+    for m in ('__getitem__', '__contains__', '__iter__', '_file_exists'):
+        if m not in _methods(base):
+            tr.err(base, f'FileSystem.{m} not found')
+    if _exists_via_get(tr, base, tr.method(base, '_file_exists')) is None:
+        tr.err(base, 'FileSystem._file_exists is not `try: self._get_file(name); return True except FileNotFoundError: return False`')
+    fcls = tr.classes.get('File')
+    if fcls is None:
+        tr.err(tr.tree, 'File not found')
+    delegation(fcls, 'open_bin', 'self.sys.open_bin', lambda a, ps: len(a) == 1 and _name(a[0]) == 'self' and not ps)
+    delegation(fcls, 'open_str', 'self.sys.open_str',
+               lambda a, ps: len(a) == 2 and _name(a[0]) == 'self' and len(ps) == 1 and _name(a[1]) == ps[0])
+    side['delegations'] = 'FileSystem.__getitem__/__contains__/__iter__ -> _get_file/_file_exists/walk_folder(\'\'); File.open_* -> sys.open_*(self)'
+
+
+def _exists_via_get(tr: Tr, cls, fn0):
+    """`try: self._get_file(name) [; return True] except FileNotFoundError: return False [else: return True]` -> True."""
+    fn = normalise(tr, cls, fn0)
+    b = _body(fn)
+    ps = _params(fn)
+    if len(ps) != 1:
+        return None
+    call = f'self._get_file({ps[0]})'
+    if len(b) in (1, 2) and isinstance(b[0], ast.Try) and len(b[0].handlers) == 1 and _is_fnf(b[0].handlers[0]) \
+            and not b[0].finalbody and ast.unparse(b[0].handlers[0].body[0]) == 'return False' and len(b[0].handlers[0].body) == 1:
+        t = b[0]
+        seq = [ast.unparse(x) for x in t.body] + [ast.unparse(x) for x in t.orelse] + [ast.unparse(x) for x in b[1:]]
+        if seq == [call, 'return True']:
+            return True
+    if len(b) == 1 and ast.unparse(b[0]) in (f'return self._get_file({ps[0]}) is not None',):
+        return None
+    return None
+
+
+def _chain_exists(tr: Tr, cls, side: dict) -> str:
+    """FileSystemChain._file_exists: inherited / try-_get_file -> ExViaGet; a loop over the members that asks each
+    member's own _file_exists for a joined name -> ExLoop carry cond ops.  Anything else fails closed."""
+    ms = _methods(cls)
+    if '_file_exists' not in ms:
+        side['chain_exists'] = {'mode': 'ExViaGet', 'shape': 'inherited FileSystem._file_exists (try self._get_file)'}
+        return 'ExViaGet'
+    if _exists_via_get(tr, cls, ms['_file_exists']):
+        side['chain_exists'] = {'mode': 'ExViaGet', 'shape': 'own try self._get_file'}
+        return 'ExViaGet'
+    fn = normalise(tr, cls, ms['_file_exists'])
+    ps = _params(fn)
+    if len(ps) != 1:
+        tr.err(fn, 'FileSystemChain._file_exists: expected one parameter')
+    A = ps[0]
+    b = _body(fn)
+    # return any(S._file_exists(join(P, A)...) for S, P in self.systems)
+    if len(b) == 1 and isinstance(b[0], ast.Return) and isinstance(b[0].value, ast.Call) and _name(b[0].value.func) == 'any' \
+            and len(b[0].value.args) == 1 and isinstance(b[0].value.args[0], ast.GeneratorExp):
+        g = b[0].value.args[0]
+        if len(g.generators) == 1 and not g.generators[0].ifs and _dotted(g.generators[0].iter) == 'self.systems' \
+                and isinstance(g.generators[0].target, ast.Tuple) and len(g.generators[0].target.elts) == 2:
+            S, P = (_name(x) for x in g.generators[0].target.elts)
+            e = g.elt
+            if isinstance(e, ast.Call) and _dotted(e.func) == f'{S}._file_exists' and len(e.args) == 1 and not e.keywords:
+                j = _join_of(tr, e.args[0], P)
+                if j is not None and j[0] == A:
+                    side['chain_exists'] = {'mode': f'ExLoop false false {_coq_ops(j[1])}', 'shape': 'any(member._file_exists(join(prefix, name)))'}
+                    return f'(ExLoop false false {_coq_ops(j[1])})'
+        tr.err(fn, 'FileSystemChain._file_exists: unrecognised any(...)')
+    lp, S, P, fwd = _systems_loop(tr, fn, b)
+    if not fwd or b[0] is not lp or len(b) != 2 or ast.unparse(b[1]) != 'return False':
+        tr.err(fn, 'FileSystemChain._file_exists: not `for member in self.systems: ...; return False`')
+    body = list(lp.body)
+    if not body:
+        tr.err(lp, 'empty loop')
+    last = body[-1]
+    if not (isinstance(last, ast.If) and not last.orelse and len(last.body) == 1 and ast.unparse(last.body[0]) == 'return True'
+            and isinstance(last.test, ast.Call) and _dotted(last.test.func) == f'{S}._file_exists' and len(last.test.args) == 1
+            and not last.test.keywords):
+        tr.err(lp, 'FileSystemChain._file_exists: loop does not end with `if member._file_exists(n): return True`')
+    asked = last.test.args[0]
+    pre = body[:-1]
+    carry = cond = False
+    if not pre:
+        j = _join_of(tr, asked, P)
+        if j is None:
+            tr.err(asked, 'FileSystemChain._file_exists: the name asked is not os.path.join(prefix, ...)')
+        X, ops = j
+        if X != A:
+            tr.err(asked, f'FileSystemChain._file_exists: joins {X}, not the parameter {A}')
+    elif len(pre) == 1 and isinstance(asked, ast.Name):
+        V = asked.id
+        st = pre[0]
+        asg = None
+        if isinstance(st, ast.Assign) and len(st.targets) == 1 and _name(st.targets[0]) == V:
+            asg = st
+        elif isinstance(st, ast.If) and _name(st.test) == P and len(st.body) == 1 and isinstance(st.body[0], ast.Assign) \
+                and len(st.body[0].targets) == 1 and _name(st.body[0].targets[0]) == V:
+            asg, cond = st.body[0], True
+            if st.orelse:
+                # else: V = A   (a fresh variable that is the bare name for an unrestricted member)
+                if not (len(st.orelse) == 1 and isinstance(st.orelse[0], ast.Assign) and _name(st.orelse[0].targets[0]) == V
+                        and _name(st.orelse[0].value) == A and V != A):
+                    tr.err(st, 'FileSystemChain._file_exists: unrecognised else branch')
+            elif V != A:
+                tr.err(st, f'FileSystemChain._file_exists: {V} keeps the value of an earlier member when the prefix is empty')
+        if asg is None:
+            tr.err(st, 'FileSystemChain._file_exists: unrecognised statement before the member test')
+        j = _join_of(tr, asg.value, P)
+        if j is None:
+            tr.err(asg, 'FileSystemChain._file_exists: the name asked is not os.path.join(prefix, ...)')
+        X, ops = j
+        if X == V:
+            carry = True           # the joined name is assigned to the variable it was joined from: it accumulates prefixes
+            if V != A:
+                tr.err(asg, f'FileSystemChain._file_exists: {V} is used before it is assigned')
+        elif X != A:
+            tr.err(asg, f'FileSystemChain._file_exists: joins {X}, not the parameter {A}')
+    else:
+        tr.err(lp, 'FileSystemChain._file_exists: unrecognised loop body')
+    mode = f'(ExLoop {"true" if carry else "false"} {"true" if cond else "false"} {_coq_ops(ops)})'
+    side['chain_exists'] = {'mode': mode, 'shape': 'loop over the members asking member._file_exists('
+                            + ('the re-assigned name' if carry else 'join(prefix, name)') + ')', 'line': lp.lineno}
+    return mode
+
+
+def _chain_open(tr: Tr, cls, side: dict) -> None:
+    """FileSystemChain.open_bin / open_str: `File -> self._get_data(name).open_X(...)`, `str -> self._get_file(name).open_X(...)`."""
+    for mname in ('open_bin', 'open_str'):
+        fn = normalise(tr, cls, tr.method(cls, mname))
+        ps = _params(fn)
+        paths = _paths(_body(fn))
+        if not ps or paths is None or len(paths) != 2:
+            tr.err(fn, f'FileSystemChain.{mname}: not an isinstance(name, File) dispatch with two returns')
+        A = ps[0]
+        extra = ps[1:]
+        seen = set()
+        for conds, e in paths:
+            if len(conds) != 1 or ast.unparse(conds[0][0]) != f'isinstance({A}, File)':
+                tr.err(fn, f'FileSystemChain.{mname}: unrecognised condition')
+            if not (isinstance(e, ast.Call) and isinstance(e.func, ast.Attribute) and e.func.attr == mname
+                    and [ast.unparse(a) for a in e.args] + [ast.unparse(k.value) for k in e.keywords] == extra):
+                tr.err(fn, f'FileSystemChain.{mname}: does not return <file>.{mname}({", ".join(extra)})')
+            src = ast.unparse(e.func.value)
+            want = f'self._get_data({A})' if conds[0][1] else None
+            if conds[0][1]:
+                if src not in (f'self._get_data({A})', f'{A}._data'):
+                    tr.err(fn, f'FileSystemChain.{mname}: a File of the chain is not opened through its member File')
+            elif src not in (f'self._get_file({A})', f'self[{A}]'):
+                tr.err(fn, f'FileSystemChain.{mname}: a name is not opened through self._get_file(name)')
+            seen.add(conds[0][1])
+        if seen != {True, False}:
+            tr.err(fn, f'FileSystemChain.{mname}: missing branch')
+    side['chain_open'] = 'open_bin/open_str(name) = self._get_file(name).open_*()'
+
+
 def _chain(tr: Tr, side: dict) -> list[str]:
     cls = tr.classes.get('FileSystemChain')
     if cls is None:
         tr.err(tr.tree, 'FileSystemChain not found')
+    tr.cls = cls
     out = []
+    _base_and_dunders(tr, side)
     # add_sys
-    fn = tr.method(cls, 'add_sys')
-    stmts = [s for s in fn.body if not (isinstance(s, ast.Expr) and isinstance(s.value, ast.Constant))]
-    ok = (len(stmts) == 1 and isinstance(stmts[0], ast.If) and _name(stmts[0].test) == 'priority'
+    fn = normalise(tr, cls, tr.method(cls, 'add_sys'))
+    stmts = _else_after_return(_body(fn))
+    if len(stmts) == 1 and isinstance(stmts[0], ast.Expr):
+        # one statement with a conditional expression on a flag  ->  the statement once per branch
+        ifx = [n for n in ast.walk(stmts[0]) if isinstance(n, ast.IfExp)]
+        if len(ifx) == 1 and isinstance(ifx[0].test, ast.Name):
+            import copy
+
+            def pick(which):
+                class _P(ast.NodeTransformer):
+                    def visit_IfExp(self, node):
+                        return self.visit(node.body if which else node.orelse)
+                return _P().visit(copy.deepcopy(stmts[0]))
+            stmts = [ast.copy_location(ast.If(test=ifx[0].test, body=[pick(True)], orelse=[pick(False)]), stmts[0])]
+    aps = _params(fn)
+    if len(aps) < 2:
+        tr.err(fn, 'add_sys: unrecognised signature')
+    pair = f'({aps[0]}, {aps[1]})'
+    prio = [a.arg for a in fn.args.kwonlyargs] + aps[2:]
+    ok = (len(stmts) == 1 and isinstance(stmts[0], ast.If) and _name(stmts[0].test) in prio
           and len(stmts[0].body) == 1 and len(stmts[0].orelse) == 1)
     if not ok:
         tr.err(fn, 'add_sys: unrecognised shape')
+
     def action(st):
         """self.systems.insert(<n>, (sys, prefix)) -> InsertAt n;  self.systems.append((sys, prefix)) -> Append."""
         if not (isinstance(st, ast.Expr) and isinstance(st.value, ast.Call) and not st.value.keywords
-                and st.value.args and ast.unparse(st.value.args[-1]) == '(sys, prefix)'):
+                and st.value.args and ast.unparse(st.value.args[-1]) == pair):
             tr.err(st, 'add_sys: branch does not add (sys, prefix) to self.systems')
         fd = _dotted(st.value.func)
         if fd == 'self.systems.append' and len(st.value.args) == 1:
             return 'Append', 'append'
+        if fd == 'self.systems.insert' and len(st.value.args) == 2 and ast.unparse(st.value.args[0]) == 'len(self.systems)':
+            return 'Append', 'insert(len(self.systems))'
         if fd == 'self.systems.insert' and len(st.value.args) == 2 and isinstance(st.value.args[0], ast.Constant) \
                 and isinstance(st.value.args[0].value, int) and st.value.args[0].value >= 0:
             return f'(InsertAt {st.value.args[0].value})', f'insert({st.value.args[0].value})'
@@ -393,84 +1394,169 @@ def _chain(tr: Tr, side: dict) -> list[str]:
     out.append(f'Definition chain_plain_action : ins_action := {na}.')
     side['chain_add_sys'] = {'priority': pa_s, 'plain': na_s}
 
-    def systems_loop(fn):
-        loops = [s for s in fn.body if isinstance(s, ast.For)]
-        if len(loops) != 1:
-            tr.err(fn, f'{fn.name}: expected one loop over self.systems')
-        lp = loops[0]
-        if ast.unparse(lp.target) != '(sys, prefix)':
-            tr.err(lp, f'{fn.name}: loop target is not (sys, prefix)')
-        if _dotted(lp.iter) == 'self.systems':
-            fwd = True
-        elif isinstance(lp.iter, ast.Call) and _name(lp.iter.func) == 'reversed' and _dotted(lp.iter.args[0]) == 'self.systems':
-            fwd = False
-        else:
-            tr.err(lp, f'{fn.name}: does not iterate self.systems')
-        return lp, fwd
-
-    def join_ops(st, var, arg):
-        # var = os.path.join(prefix, arg).replace('\\', '/')
-        if not (isinstance(st, ast.Assign) and _name(st.targets[0]) == var):
-            tr.err(st, f'expected assignment to {var}')
-        base, ops = tr.expr(st.value, {'JOIN': ('JOIN', [])}) if False else _join_expr(tr, st.value, arg)
-        return ops
-
     # _get_file
-    fn = tr.method(cls, '_get_file')
-    lp, fwd = systems_loop(fn)
-    b = lp.body
-    shape = (len(b) == 3 and isinstance(b[1], ast.Try) and isinstance(b[2], ast.Return)
-             and len(b[1].body) == 1 and len(b[1].handlers) == 1 and not b[1].orelse and not b[1].finalbody
-             and _name(b[1].handlers[0].type) == 'FileNotFoundError' and len(b[1].handlers[0].body) == 1
-             and isinstance(b[1].handlers[0].body[0], ast.Continue)
-             and isinstance(b[1].body[0], ast.Assign)
-             and ast.unparse(b[1].body[0].value) == 'sys._get_file(full_name)'
-             and isinstance(b[2].value, ast.Call) and _name(b[2].value.func) == 'File'
-             and len(b[2].value.args) == 3 and ast.unparse(b[2].value.args[2]) == ast.unparse(b[1].body[0].targets[0]))
-    if not shape:
-        tr.err(lp, '_get_file: loop body is not `full_name = ...; try: f = sys._get_file(full_name) except FileNotFoundError: continue; return File(.., f)`')
-    jops = join_ops(b[0], 'full_name', 'name')
-    last = fn.body[-1]
-    if not (isinstance(last, ast.Raise) and 'FileNotFoundError' in ast.unparse(last)):
-        tr.err(fn, '_get_file: does not end by raising FileNotFoundError')
+    fn = normalise(tr, cls, tr.method(cls, '_get_file'))
+    ps = _params(fn)
+    if len(ps) != 1:
+        tr.err(fn, '_get_file: expected one parameter')
+    A = ps[0]
+    stmts = _body(fn)
+    lp, S, P, fwd = _systems_loop(tr, fn, stmts)
+    b = list(lp.body)
+    asked = path = None
+    if len(b) == 2 and isinstance(b[0], ast.Try) and isinstance(b[1], ast.Return):
+        t = b[0]
+        if (len(t.body) == 1 and len(t.handlers) == 1 and not t.orelse and not t.finalbody and _is_fnf(t.handlers[0])
+                and len(t.handlers[0].body) == 1 and isinstance(t.handlers[0].body[0], ast.Continue)
+                and isinstance(t.body[0], ast.Assign) and len(t.body[0].targets) == 1 and isinstance(t.body[0].targets[0], ast.Name)
+                and isinstance(t.body[0].value, ast.Call) and _dotted(t.body[0].value.func) == f'{S}._get_file'
+                and len(t.body[0].value.args) == 1 and not t.body[0].value.keywords
+                and isinstance(b[1].value, ast.Call) and _name(b[1].value.func) == 'File' and len(b[1].value.args) == 3
+                and _name(b[1].value.args[0]) == 'self' and _name(b[1].value.args[2]) == t.body[0].targets[0].id):
+            asked, path = t.body[0].value.args[0], b[1].value.args[1]
+    elif len(b) == 1 and isinstance(b[0], ast.Try):
+        t = b[0]
+        if (len(t.body) == 1 and len(t.handlers) == 1 and not t.orelse and not t.finalbody and _is_fnf(t.handlers[0])
+                and len(t.handlers[0].body) == 1 and isinstance(t.handlers[0].body[0], (ast.Continue, ast.Pass))
+                and isinstance(t.body[0], ast.Return) and isinstance(t.body[0].value, ast.Call) and _name(t.body[0].value.func) == 'File'
+                and len(t.body[0].value.args) == 3 and _name(t.body[0].value.args[0]) == 'self'
+                and isinstance(t.body[0].value.args[2], ast.Call) and _dotted(t.body[0].value.args[2].func) == f'{S}._get_file'
+                and len(t.body[0].value.args[2].args) == 1):
+            asked, path = t.body[0].value.args[2].args[0], t.body[0].value.args[1]
+    if asked is None:
+        tr.err(lp, '_get_file: loop body is not `try: f = member._get_file(join(prefix, name)) except FileNotFoundError: continue; '
+                   'return File(self, .., f)`')
+    j = _join_of(tr, asked, P)
+    if j is None or j[0] != A:
+        tr.err(asked, f'_get_file: the member is not asked for os.path.join(prefix, {A})...')
+    jops = j[1]
+    last = stmts[-1]
+    if not (last is not lp and isinstance(last, ast.Raise) and 'FileNotFoundError' in ast.unparse(last)) or stmts[0] is not lp or len(stmts) != 2:
+        tr.err(fn, '_get_file: is not one loop followed by raising FileNotFoundError')
     out.append(f'Definition chain_get_forward : bool := {"true" if fwd else "false"}.')
     out.append(f'Definition chain_get_join_ops : list sop := {_coq_ops(jops)}.')
     side['chain_get'] = {'forward': fwd, 'join_ops': jops, 'line': lp.lineno}
 
+    # _file_exists, open_bin, open_str
+    out.append(f'Definition chain_exists_mode : exists_mode := {_chain_exists(tr, cls, side)}.')
+    _chain_open(tr, cls, side)
+    out.append('Definition chain_open_via_get : bool := true.')
+    out.append('Definition fs_dunders_delegate : bool := true.')
+
     # walk_folder (dedup)
-    kops, dmode, dshape = _dedup(tr, tr.method(cls, 'walk_folder'))
+    kops, dmode, dshape = _dedup(tr, normalise(tr, cls, tr.method(cls, 'walk_folder')))
     out.append(f'Definition chain_dedup_ops : list sop := {_coq_ops(kops)}.')
     out.append(f'Definition chain_dedup_mode : dedup_mode := {dmode}.')
     side['chain_dedup_ops'] = kops
     side['chain_dedup'] = {'mode': dmode, 'shape': dshape}
 
     # walk_folder_repeat
-    fn = tr.method(cls, 'walk_folder_repeat')
-    lp, fwd = systems_loop(fn)
+    fn = normalise(tr, cls, tr.method(cls, 'walk_folder_repeat'))
+    ps = _params(fn)
+    if len(ps) != 1:
+        tr.err(fn, 'walk_folder_repeat: expected one parameter')
+    A = ps[0]
+    stmts = _body(fn)
+    lp, S, P, fwd = _systems_loop(tr, fn, stmts)
+    if len(stmts) != 1:
+        tr.err(fn, 'walk_folder_repeat: statements besides the loop over self.systems')
     b = list(lp.body)
-    if len(b) < 2 or not isinstance(b[-1], ast.For):
+    if len(b) != 1 or not isinstance(b[0], ast.For) or b[0].orelse:
         tr.err(lp, 'walk_folder_repeat: unrecognised loop body')
-    jops2 = join_ops(b[0], 'full_folder', 'folder')
-    inner = b[-1]
-    if not (ast.unparse(inner.iter) == 'sys.walk_folder(full_folder)' and _name(inner.target) == 'file'
+    inner = b[0]
+    F = _name(inner.target)
+    if not (F and isinstance(inner.iter, ast.Call) and _dotted(inner.iter.func) == f'{S}.walk_folder' and len(inner.iter.args) == 1
+            and not inner.iter.keywords
             and len(inner.body) == 1 and isinstance(inner.body[0], ast.Expr) and isinstance(inner.body[0].value, ast.Yield)
             and isinstance(inner.body[0].value.value, ast.Call) and _name(inner.body[0].value.value.func) == 'File'
-            and len(inner.body[0].value.value.args) == 3 and _name(inner.body[0].value.value.args[2]) == 'file'):
-        tr.err(inner, 'walk_folder_repeat: inner loop is not `for file in sys.walk_folder(full_folder): yield File(self, <rel>, file)`')
-    rel = ast.unparse(inner.body[0].value.value.args[1])
-    mid = b[1:-1]
-    if rel == "os.path.relpath(file.path, prefix).replace('\\\\', '/')" and not mid:
+            and len(inner.body[0].value.value.args) == 3 and _name(inner.body[0].value.value.args[0]) == 'self'
+            and _name(inner.body[0].value.value.args[2]) == F):
+        tr.err(inner, 'walk_folder_repeat: inner loop is not `for file in member.walk_folder(join(prefix, folder)): yield File(self, <rel>, file)`')
+    j = _join_of(tr, inner.iter.args[0], P)
+    if j is None or j[0] != A:
+        tr.err(inner, f'walk_folder_repeat: the member is not asked for os.path.join(prefix, {A})...')
+    jops2 = j[1]
+    rel_e = inner.body[0].value.value.args[1]
+    rel = ast.unparse(rel_e)
+    if rel == f"os.path.relpath({F}.path, {P}).replace('\\\\', '/')":
         mode = 'RelPath'
-    elif (rel == "'/'.join(file.path.replace('\\\\', '/').split('/')[depth:])" and len(mid) == 1
-          and ast.unparse(mid[0]) == "depth = len([part for part in prefix.replace('\\\\', '/').split('/') if part not in ('', '.')])"):
+    elif _is_drop_segs(rel_e, F, P):
         mode = 'RelDropSegs'
     else:
-        tr.err(inner, f'walk_folder_repeat: unrecognised relative-path expression {rel[:80]}')
+        tr.err(inner, f'walk_folder_repeat: unrecognised relative-path expression {rel[:120]}')
     out.append(f'Definition chain_walk_forward : bool := {"true" if fwd else "false"}.')
     out.append(f'Definition chain_walk_join_ops : list sop := {_coq_ops(jops2)}.')
     out.append(f'Definition chain_relmode : relmode := {mode}.')
     side['chain_walk'] = {'forward': fwd, 'join_ops': jops2, 'relmode': mode, 'line': lp.lineno}
     return out
+
+
+def _slash_split(e, base: str) -> bool:
+    """<base>.replace('\\', '/').split('/')"""
+    return (isinstance(e, ast.Call) and isinstance(e.func, ast.Attribute) and e.func.attr == 'split' and len(e.args) == 1
+            and not e.keywords and _is_const(e.args[0], '/') and isinstance(e.func.value, ast.Call)
+            and isinstance(e.func.value.func, ast.Attribute) and e.func.value.func.attr == 'replace'
+            and len(e.func.value.args) == 2 and not e.func.value.keywords and _is_const(e.func.value.args[0], '\\')
+            and _is_const(e.func.value.args[1], '/') and _dotted(e.func.value.func.value) == base)
+
+
+def _pred_is(test, var: str, ref, ref_consts=('', '.')) -> bool:
+    """Does the test (built from the truth value of the string `var`, comparisons of `var` with string literals by == != in
+    not in, and and/or/not) denote the predicate `ref`?  In that fragment the value depends only on which of the mentioned
+    literals `var` equals, so evaluating both on the literals either of them mentions (`ref_consts` for the reference), the
+    empty string and one fresh string decides the question."""
+    consts: set = {''} | set(ref_consts)       # the literals the reference predicate itself distinguishes
+
+    def ok(t) -> bool:
+        if isinstance(t, ast.Name):
+            return t.id == var
+        if isinstance(t, ast.UnaryOp) and isinstance(t.op, ast.Not):
+            return ok(t.operand)
+        if isinstance(t, ast.BoolOp):
+            return all(ok(v) for v in t.values)
+        if isinstance(t, ast.Compare) and len(t.ops) == 1 and _name(t.left) == var:
+            c = t.comparators[0]
+            if isinstance(t.ops[0], (ast.Eq, ast.NotEq)) and isinstance(c, ast.Constant) and isinstance(c.value, str):
+                consts.add(c.value)
+                return True
+            if isinstance(t.ops[0], (ast.In, ast.NotIn)) and isinstance(c, (ast.Tuple, ast.List, ast.Set)) \
+                    and all(isinstance(x, ast.Constant) and isinstance(x.value, str) for x in c.elts):
+                consts.update(x.value for x in c.elts)
+                return True
+        return False
+
+    if not ok(test):
+        return False
+    fresh = 'x'
+    while fresh in consts:
+        fresh += 'x'
+    code = compile(ast.Expression(body=test), '<pred>', 'eval')
+    return all(bool(eval(code, {'__builtins__': {}}, {var: v})) == bool(ref(v)) for v in sorted(consts) + [fresh])
+
+
+def _is_drop_segs(e, F: str, P: str) -> bool:
+    """'/'.join(F.path.replace('\\', '/').split('/')[N:]) with N = len([v for v in P.replace('\\', '/').split('/') if <v is
+    neither '' nor '.'>]) - the filter in any spelling (decided by _pred_is)."""
+    if not (isinstance(e, ast.Call) and isinstance(e.func, ast.Attribute) and e.func.attr == 'join' and _is_const(e.func.value, '/')
+            and len(e.args) == 1 and not e.keywords and isinstance(e.args[0], ast.Subscript) and isinstance(e.args[0].slice, ast.Slice)):
+        return False
+    sub = e.args[0]
+    sl = sub.slice
+    if sl.upper is not None or sl.step is not None or sl.lower is None or not _slash_split(sub.value, f'{F}.path'):
+        return False
+    n = sl.lower
+    if not (isinstance(n, ast.Call) and _name(n.func) == 'len' and len(n.args) == 1 and not n.keywords and isinstance(n.args[0], ast.ListComp)):
+        return False
+    lc = n.args[0]
+    if len(lc.generators) != 1 or lc.generators[0].is_async or not isinstance(lc.generators[0].target, ast.Name):
+        return False
+    g = lc.generators[0]
+    v = g.target.id
+    if not _slash_split(g.iter, P) or not g.ifs:
+        return False
+    test = g.ifs[0] if len(g.ifs) == 1 else ast.BoolOp(op=ast.And(), values=list(g.ifs))
+    import copy
+    return _pred_is(ast.fix_missing_locations(copy.deepcopy(test)), v, lambda s: s not in ('', '.'))
 
 
 def _dedup(tr: Tr, fn: ast.FunctionDef):
@@ -484,10 +1570,25 @@ def _dedup(tr: Tr, fn: ast.FunctionDef):
                      d[K] = file  (later members overwrite the File of a name)         -> DedupOverwrite
     where K is a normalisation of file.path.  Anything else fails closed."""
     stmts = [s for s in fn.body if not (isinstance(s, ast.Expr) and isinstance(s.value, ast.Constant))]
-    if not (len(stmts) in (2, 3) and isinstance(stmts[0], (ast.Assign, ast.AnnAssign)) and isinstance(stmts[1], ast.For)
-            and ast.unparse(stmts[1].iter) == 'self.walk_folder_repeat(folder)' and _name(stmts[1].target) == 'file'
-            and not stmts[1].orelse):
+    ps = _params(fn)
+    # d = {K: file for file in self.walk_folder_repeat(folder)}; return iter(d.values())  -  the same as d[K] = file in a loop
+    if len(ps) == 1 and len(stmts) == 2 and isinstance(stmts[0], (ast.Assign, ast.AnnAssign)) and isinstance(stmts[0].value, ast.DictComp):
+        dc = stmts[0].value
+        coll = _name(stmts[0].target if isinstance(stmts[0], ast.AnnAssign) else stmts[0].targets[0])
+        g = dc.generators[0]
+        if (coll is not None and len(dc.generators) == 1 and not g.ifs and isinstance(g.target, ast.Name) and _name(dc.value) == g.target.id
+                and ast.unparse(g.iter) in (f'self.walk_folder_repeat({ps[0]})', f'self.walk_folder_repeat(folder={ps[0]})')
+                and ast.unparse(stmts[1]) in (f'return iter({coll}.values())', f'return {coll}.values()', f'yield from {coll}.values()')):
+            kb, ko = tr.expr(dc.key, {})
+            if kb != f'{g.target.id}.path':
+                tr.err(stmts[0], f'walk_folder: de-duplication key derived from {kb}, not from {g.target.id}.path')
+            return ko, 'DedupOverwrite', '{key: file for file in ...} (a later member overwrites the File kept for a name)'
+        tr.err(fn, 'FileSystemChain.walk_folder: unrecognised dict comprehension')
+    if not (len(ps) == 1 and len(stmts) in (2, 3) and isinstance(stmts[0], (ast.Assign, ast.AnnAssign)) and isinstance(stmts[1], ast.For)
+            and ast.unparse(stmts[1].iter) in (f'self.walk_folder_repeat({ps[0]})', f'self.walk_folder_repeat(folder={ps[0]})')
+            and isinstance(stmts[1].target, ast.Name) and not stmts[1].orelse):
         tr.err(fn, 'FileSystemChain.walk_folder: unrecognised shape')
+    FV = stmts[1].target.id
     coll = _name(stmts[0].target if isinstance(stmts[0], ast.AnnAssign) else stmts[0].targets[0])
     init = ast.unparse(stmts[0].value) if stmts[0].value is not None else ''
     if coll is None or init not in ('set()', '{}', 'dict()'):
@@ -507,7 +1608,7 @@ def _dedup(tr: Tr, fn: ast.FunctionDef):
         return k
 
     def is_yield_file(st):
-        return isinstance(st, ast.Expr) and isinstance(st.value, ast.Yield) and _name(st.value.value) == 'file'
+        return isinstance(st, ast.Expr) and isinstance(st.value, ast.Yield) and _name(st.value.value) == FV
 
     def is_call(st, meth, nargs):
         return (isinstance(st, ast.Expr) and isinstance(st.value, ast.Call) and isinstance(st.value.func, ast.Attribute)
@@ -520,7 +1621,7 @@ def _dedup(tr: Tr, fn: ast.FunctionDef):
 
     def is_store(st):
         return (isinstance(st, ast.Assign) and len(st.targets) == 1 and isinstance(st.targets[0], ast.Subscript)
-                and _name(st.targets[0].value) == coll and _name(st.value) == 'file')
+                and _name(st.targets[0].value) == coll and _name(st.value) == FV)
 
     mode = shape = None
     if is_set:
@@ -539,7 +1640,7 @@ def _dedup(tr: Tr, fn: ast.FunctionDef):
         tail = ast.unparse(stmts[2]) if len(stmts) == 3 else ''
         if tail not in (f'return iter({coll}.values())', f'return {coll}.values()', f'yield from {coll}.values()'):
             tr.err(fn, 'walk_folder: a dict is filled but its values are not returned')
-        if len(body) == 1 and is_call(body[0], 'setdefault', 2) and _name(body[0].value.args[1]) == 'file':
+        if len(body) == 1 and is_call(body[0], 'setdefault', 2) and _name(body[0].value.args[1]) == FV:
             key_of(body[0].value.args[0])
             mode, shape = 'DedupSkip', 'dict.setdefault(key, file)'
         elif (len(body) == 1 and isinstance(body[0], ast.If) and not body[0].orelse and membership(body[0].test, ast.NotIn)
@@ -552,8 +1653,8 @@ def _dedup(tr: Tr, fn: ast.FunctionDef):
     if mode is None:
         tr.err(stmts[1], 'walk_folder: loop body is not a recognised de-duplication')
     for kb, _ in keys:
-        if kb != 'file.path':
-            tr.err(stmts[1], f'walk_folder: de-duplication key derived from {kb}, not from file.path')
+        if kb != f'{FV}.path':
+            tr.err(stmts[1], f'walk_folder: de-duplication key derived from {kb}, not from {FV}.path')
     for _, ko in keys[1:]:
         if ko != keys[0][1]:
             tr.err(stmts[1], 'walk_folder: the membership test and the store use different keys')
@@ -582,12 +1683,307 @@ def _join_expr(tr: Tr, e, arg: str):
     return 'JOIN', ops
 
 
+# ------------------------------------------------------------------------------------------------ what open_* reads
+def _strip_wrappers(e):
+    """io.TextIOWrapper(X, ...), io.BytesIO(X), io.StringIO(X, ...), cast(T, X) -> X."""
+    while isinstance(e, ast.Call):
+        fd = _dotted(e.func)
+        if fd in ('io.TextIOWrapper', 'io.BytesIO', 'io.StringIO', 'TextIOWrapper', 'BytesIO', 'StringIO') and e.args:
+            e = e.args[0]
+        elif fd in ('cast', 'typing.cast') and len(e.args) == 2:
+            e = e.args[1]
+        else:
+            break
+    return e
+
+
+def _cexpr(tr: Tr, cls, e, fv: str, depth: int = 0) -> str:
+    """Content expression over the FileInfo variable `fv` -> Coq cexpr.  Fail-closed."""
+    if depth > 4:
+        tr.err(e, 'content helper recursion')
+    if isinstance(e, ast.Call) and isinstance(e.func, ast.Attribute) and e.func.attr == 'read' and _name(e.func.value) == fv \
+            and not e.args and not e.keywords:
+        return 'CRead'
+    if isinstance(e, ast.Attribute) and e.attr == 'start_data' and _name(e.value) == fv:
+        return 'CPreload'
+    if isinstance(e, ast.IfExp):
+        return _ctest(tr, e.test, fv, _cexpr(tr, cls, e.body, fv, depth), _cexpr(tr, cls, e.orelse, fv, depth))
+    if isinstance(e, ast.Call) and len(e.args) == 1 and not e.keywords and _name(e.args[0]) == fv:
+        # a helper of the same class / module taking the FileInfo: if-return chains over the same little language
+        fn = _Inline(tr, cls)._resolve(e.func)
+        if fn is not None:
+            ps = [a.arg for a in fn.args.args]
+            deco = {_dotted(d) for d in fn.decorator_list}
+            if ps and ps[0] in ('self', 'cls') and 'staticmethod' not in deco:
+                ps = ps[1:]
+            if len(ps) == 1:
+                paths = _paths(_body(normalise(tr, cls, fn)))
+                if paths:
+                    return _cpaths(tr, cls, paths, ps[0], depth + 1)
+    tr.err(e, f'unrecognised content expression {ast.unparse(e)[:80]} (expected {fv}.read())')
+
+
+def _cpaths(tr: Tr, cls, paths, fv: str, depth: int) -> str:
+    """[(conditions, expr)] produced by _paths (a decision tree in prefix order) -> nested cexpr."""
+    def build(items, level):
+        if len(items) == 1 and len(items[0][0]) == level:
+            return _cexpr(tr, cls, items[0][1], fv, depth)
+        test = items[0][0][level][0]
+        same = lambda it: len(it[0]) > level and ast.dump(it[0][level][0]) == ast.dump(test)
+        yes = [it for it in items if same(it) and it[0][level][1]]
+        no = [it for it in items if same(it) and not it[0][level][1]]
+        if len(yes) + len(no) != len(items) or not yes or not no:
+            tr.err(test, 'unrecognised decision structure in content helper')
+        return _ctest(tr, test, fv, build(yes, level + 1), build(no, level + 1))
+    return build(list(paths), 0)
+
+
+def _ctest(tr: Tr, t, fv: str, a: str, b: str) -> str:
+    """`a if <t> else b` for the two tests on where the data lives."""
+    u = ast.unparse(t)
+    if u == f'{fv}.arch_index is None':
+        return f'(CIfDir {a} {b})'
+    if u == f'{fv}.arch_index is not None':
+        return f'(CIfDir {b} {a})'
+    if u in (f'not {fv}.arch_len', f'{fv}.arch_len == 0', f'{fv}.arch_len <= 0', f'0 == {fv}.arch_len'):
+        return f'(CIfNoTail {a} {b})'
+    if u in (f'{fv}.arch_len', f'{fv}.arch_len != 0', f'{fv}.arch_len > 0', f'{fv}.arch_len >= 1'):
+        return f'(CIfNoTail {b} {a})'
+    tr.err(t, f'unrecognised test {u[:60]} in a content expression')
+
+
+class _FileInfoSrc(ast.NodeTransformer):
+    """self._get_data(A) / A._data / self.<dict>[...]  ->  the name _FI (where the FileInfo comes from does not matter)."""
+
+    def __init__(self, A, dict_attr, tr=None, cls=None, depth=0):
+        self.A, self.dict_attr, self.n = A, dict_attr, 0
+        self.tr, self.cls, self.depth = tr, cls, depth
+
+    def _hit(self, node):
+        self.n += 1
+        return ast.copy_location(ast.Name(id='_FI', ctx=ast.Load()), node)
+
+    def visit_Call(self, node):
+        if _dotted(node.func) in ('self._get_data', 'cls._get_data') and len(node.args) == 1 and _name(node.args[0]) == self.A:
+            return self._hit(node)
+        # a helper of the same class handed the name, every path of which returns such a FileInfo source
+        if self.tr is not None and self.depth < 3 and len(node.args) == 1 and not node.keywords and _name(node.args[0]) == self.A:
+            helper = _Inline(self.tr, self.cls)._resolve(node.func)
+            if helper is not None and helper.name not in LOOKUP_METHODS:
+                ps = [a.arg for a in helper.args.args]
+                deco = {_dotted(d) for d in helper.decorator_list}
+                if ps and ps[0] in ('self', 'cls') and 'staticmethod' not in deco:
+                    ps = ps[1:]
+                paths = _paths(_body(normalise(self.tr, self.cls, helper))) if len(ps) == 1 else None
+                if paths and all(e is not None for _, e in paths):
+                    import copy
+                    sub = _FileInfoSrc(ps[0], self.dict_attr, self.tr, self.cls, self.depth + 1)
+                    if all(_name(sub.visit(copy.deepcopy(e))) == '_FI' for _, e in paths):
+                        return self._hit(node)
+        return self.generic_visit(node)
+
+    def visit_Attribute(self, node):
+        if node.attr == '_data' and _name(node.value) == self.A:
+            return self._hit(node)
+        return self.generic_visit(node)
+
+    def visit_Subscript(self, node):
+        if _dotted(node.value) == f'self.{self.dict_attr}':
+            return self._hit(node)
+        return self.generic_visit(node)
+
+
+def _vpk_content(tr: Tr, cls, dict_attr: str, side: dict) -> list[str]:
+    """VPKFileSystem.open_bin / open_str: on every path the returned stream wraps one content expression over the
+    FileInfo, which comes from self._get_data(name) (a File of this system) or from the dictionary."""
+    out = []
+    res = {}
+    for mname in ('open_bin', 'open_str'):
+        fn0 = tr.method(cls, mname)
+        if fn0.decorator_list:
+            tr.err(fn0, f'VPKFileSystem.{mname} is decorated')
+        fn = normalise(tr, cls, fn0)
+        ps = _params(fn)
+        paths = _paths(_body(fn))
+        if not paths or any(e is None for _, e in paths):
+            tr.err(fn, f'VPKFileSystem.{mname}: unrecognised control flow')
+        got = set()
+        for _, r in paths:
+            e = _strip_wrappers(r)
+            if mname == 'open_str' and isinstance(e, ast.Call) and _dotted(e.func) == 'self.open_bin' and e.args \
+                    and _name(e.args[0]) == ps[0]:
+                got.add(res['open_bin'])
+                continue
+            src = _FileInfoSrc(ps[0], dict_attr, tr, cls)
+            e = src.visit(e)
+            names = {n.id for n in ast.walk(e) if isinstance(n, ast.Name) and n.id not in ('self', 'cls', cls.name)}
+            if names != {'_FI'}:
+                tr.err(fn, f'VPKFileSystem.{mname}: the content {ast.unparse(e)[:80]} does not depend on the FileInfo alone')
+            got.add(_cexpr(tr, cls, e, '_FI'))
+        if len(got) != 1:
+            tr.err(fn, f'VPKFileSystem.{mname}: different paths read different things: {sorted(got)}')
+        res[mname] = got.pop()
+        out.append(f'Definition vpk_{mname}_content : cexpr := {res[mname]}.')
+    side['vpk_content'] = res
+    return out
+
+
+# ------------------------------------------------------------------------------------------------ the container's reader
+def _lin(e):
+    """Integer-linear expression over self.offset / self.arch_len -> {'offset': n, 'arch_len': n, 'const': n}, else None."""
+    if isinstance(e, ast.Constant) and isinstance(e.value, int) and not isinstance(e.value, bool):
+        return {'offset': 0, 'arch_len': 0, 'const': e.value}
+    if isinstance(e, ast.Attribute) and _name(e.value) == 'self' and e.attr in ('offset', 'arch_len'):
+        return {'offset': int(e.attr == 'offset'), 'arch_len': int(e.attr == 'arch_len'), 'const': 0}
+    if isinstance(e, ast.UnaryOp) and isinstance(e.op, (ast.USub, ast.UAdd)):
+        v = _lin(e.operand)
+        return None if v is None else ({k: -x for k, x in v.items()} if isinstance(e.op, ast.USub) else v)
+    if isinstance(e, ast.BinOp) and isinstance(e.op, (ast.Add, ast.Sub)):
+        a, b = _lin(e.left), _lin(e.right)
+        if a is None or b is None:
+            return None
+        sg = 1 if isinstance(e.op, ast.Add) else -1
+        return {k: a[k] + sg * b[k] for k in a}
+    return None
+
+
+def _z(n: int) -> str:
+    return f'({n})%Z' if n < 0 else f'{n}%Z'
+
+
+def _vpk_reader(side: dict) -> list[str]:
+    """vpk.py FileInfo.read() -> rexpr (rocq/SM/FsChainRead.v): the preload, slices of the directory block / of a numbered
+    archive with the integer displacements found in the source, the tests on arch_len / arch_index.  Fail-closed."""
+    import copy
+    tree = canonical_module(ast.parse(src_text('vpk.py')))
+    tr = Tr(tree, 'vpk.py')
+    cls = tr.classes.get('FileInfo')
+    if cls is None:
+        tr.err(tree, 'vpk.py: FileInfo not found')
+    tr.cls = cls
+    fn0 = tr.method(cls, 'read')
+    if fn0.decorator_list or _params(fn0):
+        tr.err(fn0, 'FileInfo.read: unexpected signature')
+    fn = normalise(tr, cls, fn0)
+    ARCH_PATH = 'os.path.join(self.vpk.folder, get_arch_filename(self.vpk.file_prefix, self.arch_index))'
+
+    def rexpr(e, reader):
+        if isinstance(e, ast.Attribute) and e.attr == 'start_data' and _name(e.value) == 'self':
+            return 'RPre'
+        if isinstance(e, ast.BinOp) and isinstance(e.op, ast.Add):
+            return f'(RCat {rexpr(e.left, reader)} {rexpr(e.right, reader)})'
+        if isinstance(e, ast.Subscript) and _dotted(e.value) == 'self.vpk.footer_data' and isinstance(e.slice, ast.Slice) \
+                and e.slice.step is None and e.slice.lower is not None and e.slice.upper is not None:
+            lo, hi = _lin(e.slice.lower), _lin(e.slice.upper)
+            if lo and hi and (lo['offset'], lo['arch_len']) == (1, 0) and (hi['offset'], hi['arch_len']) == (1, 1):
+                return f'(RSlice true {_z(lo["const"])} {_z(hi["const"])})'
+            tr.err(e, f'FileInfo.read: unrecognised slice bounds {ast.unparse(e.slice)[:60]}')
+        if isinstance(e, ast.Call) and isinstance(e.func, ast.Attribute) and e.func.attr == 'read' and reader is not None \
+                and _name(e.func.value) == reader[0] and len(e.args) == 1 and not e.keywords:
+            if reader[1] is None:
+                tr.err(e, 'FileInfo.read: the archive is read without a seek to the offset')
+            ln = _lin(e.args[0])
+            if ln and (ln['offset'], ln['arch_len']) == (0, 1):
+                return f'(RSlice false {_z(reader[1])} {_z(reader[1] + ln["const"])})'
+            tr.err(e, f'FileInfo.read: unrecognised length {ast.unparse(e.args[0])[:60]}')
+        tr.err(e, f'FileInfo.read: unrecognised expression {ast.unparse(e)[:80]}')
+
+    def stmts(body, env, reader):
+        body = [st for st in body if not _is_doc(st) and not isinstance(st, ast.Pass)]
+        if not body:
+            tr.err(fn, 'FileInfo.read: a path does not return')
+        st, rest = body[0], body[1:]
+        sub = lambda x: _Subst(env).visit(copy.deepcopy(x))
+        if isinstance(st, ast.Return) and st.value is not None:
+            return rexpr(sub(st.value), reader)
+        if isinstance(st, ast.Assign) and len(st.targets) == 1 and isinstance(st.targets[0], ast.Name) and _pure_or_archname(st.value):
+            return stmts(rest, {**env, st.targets[0].id: sub(st.value)}, reader)
+        if isinstance(st, ast.If):
+            a = stmts(list(st.body) + rest, env, reader)
+            b = stmts(list(st.orelse) + rest, env, reader)
+            return _ctest(tr, sub(st.test), 'self', a, b).replace('(CIf', '(RIf')
+        if isinstance(st, ast.Assign) and len(st.targets) == 1 and isinstance(st.targets[0], ast.Name) and reader is not None \
+                and isinstance(st.value, ast.Call) and isinstance(st.value.func, ast.Attribute) and st.value.func.attr == 'read' \
+                and _name(st.value.func.value) == reader[0]:
+            return stmts(rest, {**env, st.targets[0].id: sub(st.value)}, reader)       # tail = data.read(n): used where it is named
+        if isinstance(st, ast.With) and len(st.items) == 1 and isinstance(st.items[0].optional_vars, ast.Name) and reader is None:
+            op = sub(st.items[0].context_expr)
+            mode = None
+            if isinstance(op, ast.Call) and _name(op.func) == 'open' and op.args:
+                mode = op.args[1] if len(op.args) > 1 else next((k.value for k in op.keywords if k.arg == 'mode'), None)
+            if not (mode is not None and _is_const(mode, 'rb') and ast.unparse(op.args[0]) == ARCH_PATH):
+                tr.err(st, f'FileInfo.read: does not open the numbered archive of the file in binary mode: {ast.unparse(op)[:100]}')
+            return stmts(list(st.body) + rest, env, (st.items[0].optional_vars.id, None))
+        if isinstance(st, ast.Expr) and isinstance(st.value, ast.Call) and isinstance(st.value.func, ast.Attribute) and reader is not None \
+                and st.value.func.attr == 'seek' and _name(st.value.func.value) == reader[0] and len(st.value.args) == 1 and not st.value.keywords:
+            pos = _lin(sub(st.value.args[0]))
+            if not pos or (pos['offset'], pos['arch_len']) != (1, 0) or reader[1] is not None:
+                tr.err(st, f'FileInfo.read: unrecognised seek {ast.unparse(st.value)[:60]}')
+            return stmts(rest, env, (reader[0], pos['const']))
+        tr.err(st, f'FileInfo.read: unrecognised statement {ast.unparse(st)[:80]}')
+
+    def _pure_or_archname(v):
+        return all(not isinstance(n, ast.Call) or _dotted(n.func) in PURE_FUNCS | {'get_arch_filename'} or
+                   (isinstance(n.func, ast.Attribute) and n.func.attr in PURE_METHODS) for n in ast.walk(v))
+
+    e = stmts(_body(fn), {}, None)
+    side['vpk_reader'] = e
+    return [f'Definition vpk_reader : rexpr := {e}.']
+
+
+def _raw_walk_shape(tr: Tr, cls) -> None:
+    """RawFileSystem.walk_folder: `for D, _, FS in os.walk(self._resolve_path(...)): for F in FS: yield File(self, R, R)` with
+    R = os.path.relpath(os.path.join(D, F), self.path).replace('\\', '/'), whatever the locals are called."""
+    import copy
+    fn = normalise(tr, cls, tr.method(cls, 'walk_folder'))
+    env: dict = {}
+    sub = lambda x: _Subst(env).visit(copy.deepcopy(x))
+    body = _body(fn)
+    while body and isinstance(body[0], (ast.Assign, ast.AnnAssign)):
+        st = body.pop(0)
+        tgt = st.targets[0] if isinstance(st, ast.Assign) and len(st.targets) == 1 else getattr(st, 'target', None)
+        if not isinstance(tgt, ast.Name) or st.value is None:
+            tr.err(st, 'RawFileSystem.walk_folder: unrecognised assignment')
+        env[tgt.id] = sub(st.value)
+    if len(body) != 1 or not isinstance(body[0], ast.For) or body[0].orelse:
+        tr.err(fn, 'RawFileSystem.walk_folder: not one loop over os.walk(...)')
+    outer = body[0]
+    it = sub(outer.iter)
+    if not (isinstance(it, ast.Call) and _dotted(it.func) == 'os.walk' and len(it.args) == 1 and not it.keywords
+            and isinstance(it.args[0], ast.Call) and _dotted(it.args[0].func) == 'self._resolve_path'):
+        tr.err(outer, 'RawFileSystem.walk_folder: does not walk self._resolve_path(folder)')
+    t = outer.target
+    if not (isinstance(t, ast.Tuple) and len(t.elts) == 3 and all(isinstance(x, ast.Name) for x in t.elts)):
+        tr.err(outer, 'RawFileSystem.walk_folder: os.walk loop target is not (dirpath, dirnames, filenames)')
+    D, FS = t.elts[0].id, t.elts[2].id
+    if len(outer.body) != 1 or not isinstance(outer.body[0], ast.For) or outer.body[0].orelse \
+            or _name(outer.body[0].iter) != FS or not isinstance(outer.body[0].target, ast.Name):
+        tr.err(outer, 'RawFileSystem.walk_folder: inner loop is not `for file in filenames`')
+    F = outer.body[0].target.id
+    inner = list(outer.body[0].body)
+    while inner and isinstance(inner[0], (ast.Assign, ast.AnnAssign)):
+        st = inner.pop(0)
+        tgt = st.targets[0] if isinstance(st, ast.Assign) and len(st.targets) == 1 else getattr(st, 'target', None)
+        if not isinstance(tgt, ast.Name) or st.value is None:
+            tr.err(st, 'RawFileSystem.walk_folder: unrecognised assignment')
+        env[tgt.id] = sub(st.value)
+    want = f"os.path.relpath(os.path.join({D}, {F}), self.path).replace('\\\\', '/')"
+    ok = (len(inner) == 1 and isinstance(inner[0], ast.Expr) and isinstance(inner[0].value, ast.Yield)
+          and isinstance(inner[0].value.value, ast.Call) and _name(inner[0].value.value.func) == 'File'
+          and len(inner[0].value.value.args) == 3 and not inner[0].value.value.keywords
+          and _name(inner[0].value.value.args[0]) == 'self'
+          and ast.unparse(sub(inner[0].value.value.args[1])) == want and ast.unparse(sub(inner[0].value.value.args[2])) == want)
+    if not ok:
+        tr.err(outer, f'RawFileSystem.walk_folder: does not yield File(self, R, R) with R = {want}')
+
+
 def _raw(tr: Tr, side: dict) -> list[str]:
     """RawFileSystem: which normalisation of the name / folder reaches `self._resolve_path(...)` in each entry point
     (the directory itself is the OS's business: os.path.isfile / open / os.walk on the resolved path)."""
     cls = tr.classes.get('RawFileSystem')
     if cls is None:
         tr.err(tr.tree, 'RawFileSystem not found')
+    tr.cls = cls
 
     def resolve_ops(mname: str, param: str, os_call: str) -> list[str]:
         fn = tr.method(cls, mname)
@@ -638,11 +2034,7 @@ def _raw(tr: Tr, side: dict) -> list[str]:
     if ostr != o:
         tr.err(cls, f'RawFileSystem: open_str and open_bin normalise differently: {ostr} vs {o}')
     w = resolve_ops('walk_folder', 'folder', 'os.walk')
-    src = ast.unparse(tr.method(cls, 'walk_folder'))
-    for n in ['os.walk(path)', "os.path.relpath(os.path.join(dirpath, file), self.path).replace('\\\\', '/')",
-              'yield File(self, rel_path, rel_path)']:
-        if n not in src:
-            tr.err(cls, f'RawFileSystem.walk_folder: missing {n}')
+    _raw_walk_shape(tr, cls)
     side['raw'] = {'get': g, 'exists': e, 'open': o, 'walk_folder': w,
                    'os': 'os.path.isfile / open / os.walk on self._resolve_path(...); listed names relative to self.path'}
     return ['Definition raw_is_os_exact : bool := true.',
@@ -653,27 +2045,33 @@ def _raw(tr: Tr, side: dict) -> list[str]:
 
 
 def translate() -> tuple[str, dict]:
-    tree = ast.parse(src_text('filesys.py'))
+    tree = canonical_module(ast.parse(src_text('filesys.py')))
     tr = Tr(tree, 'filesys.py')
     side: dict = {'backends': {}}
     lines = ['(* generated by translate/c19_walk.py from src/srctools/filesys.py - do not edit *)',
-             'From Coq Require Import List NArith.', 'From SV Require Import SM.FsChain.', 'Import ListNotations.', '']
+             'From Coq Require Import List NArith ZArith.', 'From SV Require Import SM.FsChain SM.FsChainForms SM.FsChainRead.', 'Import ListNotations.', '']
     for cname, dattr in DICTS.items():
         cls = tr.classes.get(cname)
         if cls is None:
             tr.err(tree, f'class {cname} not found')
         tr.cls = cls
-        store, store_base = _store_ops(tr, cls, dattr)
-        get = _key_uses(tr, tr.method(cls, '_get_file'), dattr, 'name')
-        ex = _key_uses(tr, tr.method(cls, '_file_exists'), dattr, 'name')
-        op = _key_uses(tr, tr.method(cls, 'open_bin'), dattr, 'name')
-        if 'self.open_bin(name)' in ast.unparse(tr.method(cls, 'open_str')):
-            ops_str = op      # delegates to open_bin
-        else:
-            ops_str = _key_uses(tr, tr.method(cls, 'open_str'), dattr, 'name')
-        if ops_str != op:
-            tr.err(cls, f'{cname}: open_str and open_bin normalise differently: {ops_str} vs {op}')
-        wf, subj, sops, line, wsrc = _walk(tr, cls, dattr)
+        for m in _methods(cls).values():
+            if m.name in LOOKUP_METHODS and m.decorator_list:
+                tr.err(m, f'{cname}.{m.name} is decorated')
+        try:
+            store, store_base = _store_ops(tr, cls, dattr)
+            get = _key_uses(tr, tr.method(cls, '_get_file'), dattr, 'name')
+            ex = _key_uses(tr, tr.method(cls, '_file_exists'), dattr, 'name')
+            op = _key_uses(tr, tr.method(cls, 'open_bin'), dattr, 'name')
+            if 'self.open_bin(name)' in ast.unparse(tr.method(cls, 'open_str')):
+                ops_str = op      # delegates to open_bin
+            else:
+                ops_str = _key_uses(tr, tr.method(cls, 'open_str'), dattr, 'name')
+            if ops_str != op:
+                tr.err(cls, f'{cname}: open_str and open_bin normalise differently: {ops_str} vs {op}')
+            wf, subj, sops, line, wsrc = _walk(tr, cls, dattr)
+        except TranslateError as e:
+            raise TranslateError(str(e) if cname in str(e) else f'{e} [while translating {cname}]') from None
         lines.append(f'Definition {CFG[cname]} : backend := {{|')
         lines.append(f'  b_store := {_coq_ops(store)}; b_get := {_coq_ops(get)}; b_exists := {_coq_ops(ex)}; b_open := {_coq_ops(op)};')
         lines.append(f'  b_wsrc := {wsrc}; b_wfolder := {_coq_ops(wf)}; b_wsubj := {subj}; b_wsubj_ops := {_coq_ops(sops)} |}}.')
@@ -681,7 +2079,16 @@ def translate() -> tuple[str, dict]:
                                    'walk_source': wsrc, 'walk_subject': subj, 'walk_subject_ops': sops, 'walk_line': line,
                                    'digest': ast_digest(cls)}
     lines.append('')
-    lines += _raw(tr, side)
+    tr.cls = tr.classes['VPKFileSystem']
+    lines += _vpk_content(tr, tr.cls, DICTS['VPKFileSystem'], side)
+    lines += _vpk_reader(side)
+    try:
+        lines += _raw(tr, side)
+    except TranslateError as e:
+        raise TranslateError(str(e) if 'RawFileSystem' in str(e) else f'{e} [while translating RawFileSystem]') from None
+    for m in _methods(tr.classes.get('FileSystemChain') or tr.err(tree, 'FileSystemChain not found')).values():
+        if m.name in LOOKUP_METHODS and m.decorator_list:
+            tr.err(m, f'FileSystemChain.{m.name} is decorated')
     lines += _chain(tr, side)
     lines.append('')
     return '\n'.join(lines), side
